@@ -1,1 +1,1997 @@
-/-! # C19 — property theorems (to be filled) -/
+import PraatModel.Klatt
+import PraatModel.Lemmas.Strip
+import PraatModel.Lemmas.KlattStr
+import PraatModel.Lemmas.KlattLines
+import PraatModel.Props.C19Clean
+import PraatModel.Props.C19PointShort
+import PraatModel.Props.C19PointLong
+
+/-! # C19 — KlattGrid and point-object files round-trip every number exactly
+
+Theorems about the executable model `PraatModel/Klatt.lean`, over all texts (`List Char`) and all
+numeral strings.  Numerals are opaque: a numeral is any string that `float()` accepts (`fclass`) and
+`strip()` leaves alone; CPython's `repr`/`float` stay outside (trusted, sampled by the harness).
+-/
+
+namespace C19
+open Klatt
+
+/-- one point of a point list as `_processSectionData` sees it:
+`A = B⏎ C = D⏎` — `A` is everything up to the first `=` (the `points [i]:` row and `    number `) -/
+structure PRow where
+  A : Txt
+  B : Txt
+  C : Txt
+  D : Txt
+
+def PRow.text (r : PRow) : Txt := r.A ++ '=' :: (r.B ++ '\n' :: (r.C ++ '=' :: (r.D ++ ['\n'])))
+
+def PRow.Good (r : PRow) : Prop :=
+  '=' ∉ r.A ∧ '\n' ∉ r.B ∧ '=' ∉ r.C ∧ '\n' ∉ r.D ∧
+  (fclass (stripList r.B)).isSome ∧ (fclass (stripList r.D)).isSome
+
+theorem floatTok_ok (n : Txt) (h : (fclass n).isSome) : floatTok n = .ok n := by
+  unfold floatTok
+  cases hf : fclass n with
+  | none => rw [hf] at h; simp at h
+  | some _ => rfl
+
+theorem psdLoop_rows (rows : List PRow) : ∀ (pre j : Txt) (acc : List (Txt × Txt)) (fuel : Nat),
+    '=' ∉ j → (∀ r ∈ rows, r.Good) → rows.length < fuel →
+    psdLoop fuel (pre ++ (j ++ (rows.map PRow.text).flatten)) pre.length acc
+      = .ok (acc ++ rows.map fun r => (stripList r.B, stripList r.D)) := by
+  induction rows with
+  | nil =>
+    intro pre j acc fuel hj _ hf
+    obtain ⟨f, rfl⟩ : ∃ f, fuel = f + 1 := ⟨fuel - 1, by simp at hf; omega⟩
+    simp only [List.map_nil, List.flatten_nil, List.append_nil]
+    rw [psdLoop, pyFind_at_none '=' _ pre j _ rfl rfl hj]
+    rfl
+  | cons r rs ih =>
+    intro pre j acc fuel hj hg hf
+    obtain ⟨f, rfl⟩ : ∃ f, fuel = f + 1 := ⟨fuel - 1, by simp at hf; omega⟩
+    obtain ⟨hA, hB, hC, hD, hfB, hfD⟩ := hg r (by simp)
+    generalize hrest : (rs.map PRow.text).flatten = rest
+    generalize hs : pre ++ (j ++ ((r :: rs).map PRow.text).flatten) = s
+    have hs0 : s = pre ++ ((j ++ r.A) ++ '=' :: (r.B ++ '\n' :: (r.C ++ '=' :: (r.D ++ '\n' :: rest)))) := by
+      rw [← hs, ← hrest]; simp [PRow.text]
+    have hjA : '=' ∉ j ++ r.A := by simp [hj, hA]
+    rw [psdLoop, pyFind_at '=' s pre _ _ _ hs0 rfl hjA]
+    simp only
+    -- first newline
+    have hs1 : s = (pre ++ (j ++ r.A) ++ ['=']) ++ (r.B ++ '\n' :: (r.C ++ '=' :: (r.D ++ '\n' :: rest))) := by
+      rw [hs0]; simp
+    have hk1 : pre.length + (j ++ r.A).length + 1 = (pre ++ (j ++ r.A) ++ ['=']).length := by simp; omega
+    rw [pyFind_at '\n' s _ _ _ _ hs1 hk1 hB]
+    simp only
+    rw [pySlice_at s _ r.B _ _ _ hs1 hk1 rfl, floatTok_ok _ hfB]
+    -- second '='
+    have hs2 : s = (pre ++ (j ++ r.A) ++ ['='] ++ r.B) ++ (('\n' :: r.C) ++ '=' :: (r.D ++ '\n' :: rest)) := by
+      rw [hs0]; simp
+    have hk2 : pre.length + (j ++ r.A).length + 1 + r.B.length = (pre ++ (j ++ r.A) ++ ['='] ++ r.B).length := by
+      simp; omega
+    have hnC : '=' ∉ '\n' :: r.C := by simp [hC]
+    rw [pyFind_at '=' s _ _ _ _ hs2 hk2 hnC]
+    simp only
+    have hs3 : s = (pre ++ (j ++ r.A) ++ ['='] ++ r.B ++ ('\n' :: r.C) ++ ['=']) ++ (r.D ++ '\n' :: rest) := by
+      rw [hs0]; simp
+    have hk3 : pre.length + (j ++ r.A).length + 1 + r.B.length + ('\n' :: r.C).length + 1
+        = (pre ++ (j ++ r.A) ++ ['='] ++ r.B ++ ('\n' :: r.C) ++ ['=']).length := by
+      simp; omega
+    rw [pyFind_at '\n' s _ _ _ _ hs3 hk3 hD]
+    simp only
+    rw [pySlice_at s _ r.D _ _ _ hs3 hk3 rfl, floatTok_ok _ hfD]
+    simp only [bind, Except.bind]
+    -- next round
+    have hs4 : s = (pre ++ (j ++ r.A) ++ ['='] ++ r.B ++ ('\n' :: r.C) ++ ['='] ++ r.D) ++ (['\n'] ++ (rs.map PRow.text).flatten) := by
+      rw [hs0, hrest]; simp
+    have hk4 : pre.length + (j ++ r.A).length + 1 + r.B.length + ('\n' :: r.C).length + 1 + r.D.length
+        = (pre ++ (j ++ r.A) ++ ['='] ++ r.B ++ ('\n' :: r.C) ++ ['='] ++ r.D).length := by
+      simp; omega
+    rw [hk4, hs4, ih _ ['\n'] _ f (by simp) (fun r' hr' => hg r' (by simp [hr'])) (by simp at hf; omega)]
+    simp
+
+/-! ## (a) `_processSectionData` on the writer's point rows -/
+
+/-- a numeral: a `float()` literal that `strip()` leaves unchanged (hence without blanks at the ends, `=` or newline) -/
+def Numeral (n : Txt) : Prop := stripList n = n ∧ (fclass n).isSome ∧ '\n' ∉ n
+
+/-- how `_processSectionData` sees the point `(n, v)` written with indentation `ind` as number `i + 1` -/
+def rowOf (ind : Txt) (i : Nat) (p : Txt × Txt) : PRow :=
+  ⟨ind ++ t "points [" ++ natDec (i + 1) ++ t "]:" ++ '\n' :: (ind ++ t "    number "), ' ' :: p.1,
+   ind ++ t "    value ", ' ' :: p.2⟩
+
+def rowsOf (ind : Txt) : Nat → List (Txt × Txt) → List PRow
+  | _, [] => []
+  | i, p :: rest => rowOf ind i p :: rowsOf ind (i + 1) rest
+
+theorem rowsOf_map (ind : Txt) (i : Nat) (pts : List (Txt × Txt)) :
+    (rowsOf ind i pts).map (fun r => (stripList r.B, stripList r.D)) = pts.map fun p => (stripList (' ' :: p.1), stripList (' ' :: p.2)) := by
+  induction pts generalizing i with
+  | nil => rfl
+  | cons p rest ih => simp [rowsOf, rowOf, ih]
+
+theorem rowsOf_length (ind : Txt) (i : Nat) (pts : List (Txt × Txt)) : (rowsOf ind i pts).length = pts.length := by
+  induction pts generalizing i with
+  | nil => rfl
+  | cons p rest ih => simp [rowsOf, ih]
+
+theorem pointRows_text (ind : Txt) (i : Nat) (pts : List (Txt × Txt)) :
+    ((pointRows ind i pts).map (· ++ ['\n'])).flatten = ((rowsOf ind i pts).map PRow.text).flatten := by
+  induction pts generalizing i with
+  | nil => rfl
+  | cons p rest ih =>
+    obtain ⟨n, v⟩ := p
+    simp only [pointRows, rowsOf, List.map_cons, List.flatten_cons, ih]
+    have e1 : t "    number = " = t "    number " ++ '=' :: [' '] := by decide
+    have e2 : t "    value = " = t "    value " ++ '=' :: [' '] := by decide
+    simp [rowOf, PRow.text, e1, e2]
+
+theorem stripList_blank_cons (n : Txt) (h : stripList n = n) : stripList (' ' :: n) = n := by
+  have := stripList_pad [' '] n [] (by intro c hc; simp at hc; subst hc; decide) (by intro c hc; simp at hc) h
+  simpa using this
+
+theorem isSome_fclass_not_nil : fclass [] = none := by decide
+
+/-- **(a)**: applied to the text the writer emits for a point list
+`points [i]:⏎ number = nᵢ⏎ value = vᵢ` (any indentation not containing `=`, any numerals), the scanner
+returns exactly the list of `(nᵢ, vᵢ)` — for every list length. -/
+theorem processSectionData_written (ind : Txt) (hind : '=' ∉ ind) (pts : List (Txt × Txt))
+    (hn : ∀ p ∈ pts, Numeral p.1 ∧ Numeral p.2) :
+    processSectionData (join ['\n'] (pointRows ind 0 pts)) = .ok pts := by
+  unfold processSectionData
+  cases hp : pts with
+  | nil => simp [pointRows, join, psdLoop, pyFind, findAt, List.isPrefixOf]; rfl
+  | cons p0 rest0 =>
+    rw [← hp]
+    have hne : pointRows ind 0 pts ≠ [] := by rw [hp]; obtain ⟨a, b⟩ := p0; simp [pointRows]
+    simp only
+    rw [join_append_sep ['\n'] _ hne, pointRows_text]
+    have hgood : ∀ r ∈ rowsOf ind 0 pts, r.Good := by
+      have : ∀ (i : Nat) (ps : List (Txt × Txt)), (∀ p ∈ ps, Numeral p.1 ∧ Numeral p.2) → ∀ r ∈ rowsOf ind i ps, r.Good := by
+        intro i ps
+        induction ps generalizing i with
+        | nil => intro _ r hr; simp [rowsOf] at hr
+        | cons p ps ih =>
+          intro hps r hr
+          rcases List.mem_cons.1 hr with rfl | hr
+          · obtain ⟨⟨s1, f1, n1⟩, ⟨s2, f2, n2⟩⟩ := hps p (by simp)
+            refine ⟨?_, ?_, ?_, ?_, ?_, ?_⟩
+            · have := eq_not_mem_natDec (i + 1)
+              have d1 : '=' ∉ t "points [" := by decide
+              have d2 : '=' ∉ t "]:" := by decide
+              have d3 : '=' ∉ t "    number " := by decide
+              simp [rowOf, hind, this, d1, d2, d3]
+            · simp [rowOf, n1]
+            · have d3 : '=' ∉ t "    value " := by decide
+              simp [rowOf, hind, d3]
+            · simp [rowOf, n2]
+            · simp only [rowOf]; rw [stripList_blank_cons _ s1]; exact f1
+            · simp only [rowOf]; rw [stripList_blank_cons _ s2]; exact f2
+          · exact ih (i + 1) (fun q hq => hps q (by simp [hq])) r hr
+      exact this 0 pts hn
+    have hfuel : (rowsOf ind 0 pts).length < (((rowsOf ind 0 pts).map PRow.text).flatten).length + 1 := by
+      have : ∀ (rs : List PRow), rs.length ≤ ((rs.map PRow.text).flatten).length := by
+        intro rs
+        induction rs with
+        | nil => simp
+        | cons r rs ih =>
+          rw [List.map_cons, List.flatten_cons, List.length_append, List.length_cons]
+          have : 1 ≤ r.text.length := by simp [PRow.text]; omega
+          omega
+      have := this (rowsOf ind 0 pts); omega
+    have := psdLoop_rows (rowsOf ind 0 pts) [] [] [] _ (by simp) hgood hfuel
+    simp only [List.nil_append, List.length_nil] at this
+    rw [this, rowsOf_map]
+    congr 1
+    have : ∀ (ps : List (Txt × Txt)), (∀ p ∈ ps, Numeral p.1 ∧ Numeral p.2) →
+        ps.map (fun p => (stripList (' ' :: p.1), stripList (' ' :: p.2))) = ps := by
+      intro ps hps
+      induction ps with
+      | nil => rfl
+      | cons p ps ih =>
+        obtain ⟨⟨s1, _, _⟩, ⟨s2, _, _⟩⟩ := hps p (by simp)
+        simp only [List.map_cons, stripList_blank_cons _ s1, stripList_blank_cons _ s2]
+        rw [ih (fun q hq => hps q (by simp [hq]))]
+    exact this pts hn
+
+/-! ## (f) `modifySubtiers` / `modifyValues` -/
+
+/-- `modifyValues f` applies `f` to every value exactly once, in place, and touches nothing else of the tier -/
+theorem modifyValues_spec (f : Txt → Txt) (p : PT) :
+    (p.modifyValues f).name = p.name ∧ (p.modifyValues f).xmin = p.xmin ∧ (p.modifyValues f).xmax = p.xmax ∧
+    (p.modifyValues f).pts.map (·.1) = p.pts.map (·.1) ∧
+    (p.modifyValues f).pts.map (·.2) = p.pts.map (fun q => f q.2) ∧
+    (p.modifyValues f).pts.length = p.pts.length := by
+  refine ⟨rfl, rfl, rfl, ?_, ?_, ?_⟩ <;> simp [PT.modifyValues, List.map_map, Function.comp_def]
+
+/-- **(f)**: `modifySubtiers name f` succeeds exactly when an intermediate tier of that name exists; it then
+maps `f` over every value of every sub tier of the addressed intermediate tier exactly once (the `k`-th value
+of the result is `f` of the `k`-th value of the input), leaves all times, names and spans of those sub tiers
+untouched, and leaves every other intermediate tier as it is. -/
+theorem modify_spec (its : List IT) (name : Txt) (f : Txt → Txt) :
+    (name ∉ its.map (·.name) → modifySubtiers its name f = .error .keyError) ∧
+    (name ∈ its.map (·.name) → ∃ its', modifySubtiers its name f = .ok its' ∧ its'.length = its.length ∧
+      ∀ k (h : k < its.length) (h' : k < its'.length),
+        (its'[k]).name = (its[k]).name ∧
+        ((its[k]).name ≠ name → its'[k] = its[k]) ∧
+        ((its[k]).name = name →
+          (its'[k]).subs.length = (its[k]).subs.length ∧
+          ∀ j (hj : j < (its[k]).subs.length) (hj' : j < (its'[k]).subs.length),
+            let p := (its[k]).subs[j]; let q := (its'[k]).subs[j]
+            q.name = p.name ∧ q.xmin = p.xmin ∧ q.xmax = p.xmax ∧
+            q.pts.map (·.1) = p.pts.map (·.1) ∧ q.pts.map (·.2) = p.pts.map (fun r => f r.2))) := by
+  constructor
+  · intro h
+    have : (its.map (·.name)).contains name = false := by simpa using h
+    simp only [modifySubtiers, this]; rfl
+  · intro h
+    have hc : (its.map (·.name)).contains name = true := by simpa using h
+    refine ⟨_, by simp only [modifySubtiers, hc, if_true]; rfl, by simp, ?_⟩
+    intro k hk hk'
+    simp only [List.getElem_map]
+    by_cases hn : (its[k]).name = name
+    · simp only [hn, if_true, ne_eq, not_true_eq_false, false_implies, true_and, List.length_map]
+      intro _ j hj hj'
+      simp only [List.getElem_map]
+      have := modifyValues_spec f ((its[k]).subs[j])
+      exact ⟨this.1, this.2.1, this.2.2.1, this.2.2.2.1, this.2.2.2.2.1⟩
+    · simp [hn]
+
+/-- a function that is not the identity on some value is visibly applied: non-vacuity of `modify_spec` -/
+example : modifySubtiers [⟨t "formants", [⟨t "formants [1]", t "0", t "1", [(t "0.5", t "55")]⟩]⟩,
+                          ⟨t "bandwidths", [⟨t "bandwidths [1]", t "0", t "1", [(t "0.5", t "60")]⟩]⟩]
+    (t "formants") (fun v => v ++ t "0")
+    = .ok [⟨t "formants", [⟨t "formants [1]", t "0", t "1", [(t "0.5", t "550")]⟩]⟩,
+           ⟨t "bandwidths", [⟨t "bandwidths [1]", t "0", t "1", [(t "0.5", t "60")]⟩]⟩] := by
+  simp [modifySubtiers, PT.modifyValues, t]; rfl
+
+/-! ## (b) the slices cut by the container bookkeeping -/
+
+/-- the canonical names of intermediate tiers, in the order the reader builds them -/
+def canon : List Txt := t "formants" :: subFilterList
+
+/-- the rows of a sub tier in the file (`KlattSubPointTier.getAsText`, one entry per line) -/
+def subLines (p : PT) : List Txt :=
+  [p.name ++ t ":", t "    xmin = " ++ p.xmin, t "    xmax = " ++ p.xmax,
+   t "    points: size = " ++ natDec p.pts.length] ++ pointRows (t "    ") 0 p.pts
+
+theorem subText_eq (p : PT) : p.subText = join ['\n'] (subLines p) ++ ['\n'] := rfl
+
+/-- header row of an intermediate tier as it stands in the file (after `_cleanNumericValues`: ` = `) -/
+def hdrLine (i : IT) : Txt := i.name ++ t ": size = " ++ natDec i.subs.length
+
+def itLines (i : IT) : List Txt := hdrLine i :: (i.subs.map subLines).flatten
+def bodyLines (its : List IT) : List Txt := (its.map itLines).flatten
+
+/-- numerals of a KlattGrid file: float literals, stripped, on one line, and — as every float literal —
+without the letters `s` and `w` (so no tier keyword can hide in a number) -/
+def KNumeral (n : Txt) : Prop := Numeral n ∧ 's' ∉ n ∧ 'w' ∉ n
+
+structure PTShape (iname : Txt) (p : PT) : Prop where
+  name : ∃ k, p.name = iname ++ t " [" ++ natDec k ++ t "]"
+  xmin : KNumeral p.xmin
+  xmax : KNumeral p.xmax
+  pts : ∀ q ∈ p.pts, KNumeral q.1 ∧ KNumeral q.2
+
+/-- the writer's shape of the intermediate tiers of one container section -/
+structure Shape (its : List IT) : Prop where
+  names : (its.map (·.name)).Sublist canon
+  subs : ∀ i ∈ its, ∀ p ∈ i.subs, PTShape i.name p
+
+/-! ### keyword occurrences, line by line -/
+
+theorem canon_kw_chars : ∀ kw ∈ canon, ('f' ∈ kw ∧ 's' ∈ kw) ∨ 'w' ∈ kw := by decide
+theorem canon_kw_nonl : ∀ kw ∈ canon, kw ≠ [] ∧ '\n' ∉ kw ∧ ':' ∉ kw ∧ ' ' ∉ kw := by decide
+
+/-- occurrences of a keyword inside a tier name: at most one, and exactly the table below -/
+theorem canon_table : ∀ kw ∈ canon, ∀ nm ∈ canon,
+    (findAll kw nm).length = if (kw = nm ∨ (kw = t "formants" ∧ nm ≠ t "bandwidths")) then 1 else 0 := by decide
+
+theorem noHit (kw : Txt) (hkw : kw ∈ canon) (l : Txt) (h : ('s' ∉ l ∧ 'w' ∉ l) ∨ ('f' ∉ l ∧ 'w' ∉ l)) :
+    findAll kw l = [] := by
+  unfold findAll
+  rcases canon_kw_chars kw hkw with ⟨hf, hs⟩ | hw
+  · rcases h with ⟨h1, _⟩ | ⟨h1, _⟩
+    · exact findAllAt_none kw l 0 's' hs h1
+    · exact findAllAt_none kw l 0 'f' hf h1
+  · rcases h with ⟨_, h2⟩ | ⟨_, h2⟩ <;> exact findAllAt_none kw l 0 'w' hw h2
+
+/-- characters a newline-terminated list of lines occupies -/
+def span : List Txt → Int
+  | [] => 0
+  | l :: ls => (l.length : Int) + 1 + span ls
+
+theorem span_append (a b : List Txt) : span (a ++ b) = span a + span b := by
+  induction a with
+  | nil => simp [span]
+  | cons l ls ih => simp only [List.cons_append, span, ih]; omega
+
+theorem span_join (ls : List Txt) (h : ls ≠ []) : ((join ['\n'] ls).length : Int) + 1 = span ls := by
+  induction ls with
+  | nil => exact absurd rfl h
+  | cons l rest ih =>
+    cases rest with
+    | nil => simp [join, span]
+    | cons l2 r2 =>
+      rw [join_cons_cons]
+      have := ih (by simp)
+      simp only [List.length_append, List.length_cons, List.length_nil, span] at this ⊢
+      omega
+
+theorem lineHits_append (kw : Txt) (a b : List Txt) (o : Int) :
+    lineHits kw (a ++ b) o = lineHits kw a o ++ lineHits kw b (o + span a) := by
+  induction a generalizing o with
+  | nil => simp [lineHits, span]
+  | cons l ls ih =>
+    simp only [List.cons_append, lineHits, ih, span, List.append_assoc]
+    have : o + ↑l.length + 1 + span ls = o + (↑l.length + 1 + span ls) := by omega
+    rw [this]
+
+theorem lineHits_none (kw : Txt) (ls : List Txt) (o : Int) (h : ∀ l ∈ ls, findAll kw l = []) : lineHits kw ls o = [] := by
+  induction ls generalizing o with
+  | nil => rfl
+  | cons l rest ih =>
+    simp only [lineHits, h l (by simp), List.map_nil, List.nil_append]
+    exact ih _ (fun x hx => h x (by simp [hx]))
+
+/-- a tier name followed by `:`/blank and keyword-free text carries exactly the name's occurrences -/
+theorem nameLine_hits (kw : Txt) (hkw : kw ∈ canon) (nm S : Txt) (c : Char) (hc : c = ':' ∨ c = ' ')
+    (hf : 'f' ∉ c :: S) (hw : 'w' ∉ c :: S) : findAll kw (nm ++ c :: S) = findAll kw nm := by
+  obtain ⟨_, _, h1, h2⟩ := canon_kw_nonl kw hkw
+  have hck : c ∉ kw := by rcases hc with rfl | rfl <;> assumption
+  unfold findAll
+  rcases canon_kw_chars kw hkw with ⟨hfk, _⟩ | hwk
+  · exact findAllAt_append_suffix kw nm S c 'f' 0 hck hfk hf
+  · exact findAllAt_append_suffix kw nm S c 'w' 0 hck hwk hw
+
+theorem digits_no (x : Char) (hx : isDigit x = false) (n : Nat) : x ∉ natDec n :=
+  not_mem_of_digits x hx _ (natDec_digits n)
+
+theorem pointRows_noHit (kw : Txt) (hkw : kw ∈ canon) (pts : List (Txt × Txt)) (i : Nat)
+    (h : ∀ q ∈ pts, KNumeral q.1 ∧ KNumeral q.2) : ∀ l ∈ pointRows (t "    ") i pts, findAll kw l = [] := by
+  induction pts generalizing i with
+  | nil => intro l hl; simp [pointRows] at hl
+  | cons q rest ih =>
+    obtain ⟨n, v⟩ := q
+    obtain ⟨⟨_, hns, hnw⟩, ⟨_, hvs, hvw⟩⟩ := h (n, v) (by simp)
+    intro l hl
+    simp only [pointRows, List.mem_cons] at hl
+    rcases hl with rfl | rfl | rfl | hl
+    · apply noHit kw hkw; right
+      have d1 := digits_no 'f' (by decide) (i + 1)
+      have d2 := digits_no 'w' (by decide) (i + 1)
+      have a1 : 'f' ∉ t "    " ++ t "points [" := by decide
+      have a2 : 'w' ∉ t "    " ++ t "points [" := by decide
+      have b1 : 'f' ∉ t "]:" := by decide
+      have b2 : 'w' ∉ t "]:" := by decide
+      simp only [List.mem_append, not_or] at a1 a2 ⊢
+      exact ⟨⟨⟨a1, d1⟩, b1⟩, ⟨⟨a2, d2⟩, b2⟩⟩
+    · apply noHit kw hkw; left
+      have a1 : 's' ∉ t "    " ++ t "    number = " := by decide
+      have a2 : 'w' ∉ t "    " ++ t "    number = " := by decide
+      simp only [List.mem_append, not_or] at a1 a2 ⊢
+      exact ⟨⟨a1, hns⟩, ⟨a2, hnw⟩⟩
+    · apply noHit kw hkw; left
+      have a1 : 's' ∉ t "    " ++ t "    value = " := by decide
+      have a2 : 'w' ∉ t "    " ++ t "    value = " := by decide
+      simp only [List.mem_append, not_or] at a1 a2 ⊢
+      exact ⟨⟨a1, hvs⟩, ⟨a2, hvw⟩⟩
+    · exact ih (i + 1) (fun q hq => h q (by simp [hq])) l hl
+
+/-- hits in the rows of one sub tier: only the name row, as often as the keyword occurs in the tier name -/
+theorem subLines_hits (kw : Txt) (hkw : kw ∈ canon) (nm : Txt) (p : PT) (hp : PTShape nm p) (o : Int) :
+    lineHits kw (subLines p) o = (findAll kw nm).map (fun _ => o) := by
+  obtain ⟨⟨k, hk⟩, ⟨_, hs1, hw1⟩, ⟨_, hs2, hw2⟩, hpts⟩ := hp
+  unfold subLines
+  rw [show [p.name ++ t ":", t "    xmin = " ++ p.xmin, t "    xmax = " ++ p.xmax,
+        t "    points: size = " ++ natDec p.pts.length] ++ pointRows (t "    ") 0 p.pts
+      = [p.name ++ t ":"] ++ ([t "    xmin = " ++ p.xmin, t "    xmax = " ++ p.xmax,
+        t "    points: size = " ++ natDec p.pts.length] ++ pointRows (t "    ") 0 p.pts) from rfl, lineHits_append]
+  have h2 : lineHits kw ([t "    xmin = " ++ p.xmin, t "    xmax = " ++ p.xmax,
+        t "    points: size = " ++ natDec p.pts.length] ++ pointRows (t "    ") 0 p.pts) (o + span [p.name ++ t ":"]) = [] := by
+    apply lineHits_none
+    intro l hl
+    simp only [List.mem_append, List.mem_cons, List.not_mem_nil, or_false] at hl
+    rcases hl with (rfl | rfl | rfl) | hl
+    · apply noHit kw hkw; left
+      have a1 : 's' ∉ t "    xmin = " := by decide
+      have a2 : 'w' ∉ t "    xmin = " := by decide
+      simp only [List.mem_append, not_or]; exact ⟨⟨a1, hs1⟩, ⟨a2, hw1⟩⟩
+    · apply noHit kw hkw; left
+      have a1 : 's' ∉ t "    xmax = " := by decide
+      have a2 : 'w' ∉ t "    xmax = " := by decide
+      simp only [List.mem_append, not_or]; exact ⟨⟨a1, hs2⟩, ⟨a2, hw2⟩⟩
+    · apply noHit kw hkw; right
+      have a1 : 'f' ∉ t "    points: size = " := by decide
+      have a2 : 'w' ∉ t "    points: size = " := by decide
+      have d1 := digits_no 'f' (by decide) p.pts.length
+      have d2 := digits_no 'w' (by decide) p.pts.length
+      simp only [List.mem_append, not_or]; exact ⟨⟨a1, d1⟩, ⟨a2, d2⟩⟩
+    · exact pointRows_noHit kw hkw p.pts 0 hpts l hl
+  rw [h2]
+  simp only [lineHits, List.append_nil]
+  congr 1
+  have e : p.name ++ t ":" = nm ++ ' ' :: (t "[" ++ natDec k ++ t "]:") := by
+    rw [hk]; simp [t]
+  rw [e]
+  have d1 := digits_no 'f' (by decide) k
+  have d2 := digits_no 'w' (by decide) k
+  apply nameLine_hits kw hkw nm _ ' ' (Or.inr rfl)
+  · simp [t, d1]
+  · simp [t, d2]
+
+/-! ### the index lists -/
+
+/-- index (of the preceding newline) of each sub tier's name row -/
+def subStarts : List PT → Int → List Int
+  | [], _ => []
+  | p :: ps, o => o :: subStarts ps (o + span (subLines p))
+
+/-- name rows of one intermediate tier: its header row and the name row of each sub tier -/
+def tierStarts (i : IT) (o : Int) : List Int := o :: subStarts i.subs (o + ((hdrLine i).length + 1))
+
+def tierSpan (i : IT) : Int := span (itLines i)
+
+def groups : List IT → Int → List (Txt × List Int)
+  | [], _ => []
+  | i :: is, o => (i.name, tierStarts i o) :: groups is (o + tierSpan i)
+
+/-- keyword `kw` occurs in the canonical tier name `nm` -/
+def T (kw nm : Txt) : Bool := decide (kw = nm ∨ (kw = t "formants" ∧ nm ≠ t "bandwidths"))
+
+theorem hits_of_table (kw nm : Txt) (hkw : kw ∈ canon) (hnm : nm ∈ canon) (o : Int) :
+    (findAll kw nm).map (fun _ => o) = if T kw nm then [o] else [] := by
+  have h := canon_table kw hkw nm hnm
+  unfold T
+  by_cases hc : (kw = nm ∨ (kw = t "formants" ∧ nm ≠ t "bandwidths"))
+  · simp only [hc, if_true] at h ⊢
+    match hl : findAll kw nm, h with
+    | [x], _ => simp
+  · simp only [hc, if_false] at h ⊢
+    match hl : findAll kw nm, h with
+    | [], _ => simp
+
+theorem subs_hits (kw nm : Txt) (hkw : kw ∈ canon) (hnm : nm ∈ canon) (ps : List PT) (hps : ∀ p ∈ ps, PTShape nm p) (o : Int) :
+    lineHits kw (ps.map subLines).flatten o = if T kw nm then subStarts ps o else [] := by
+  induction ps generalizing o with
+  | nil => simp [lineHits, subStarts]
+  | cons p rest ih =>
+    simp only [List.map_cons, List.flatten_cons, lineHits_append, subStarts]
+    rw [subLines_hits kw hkw nm p (hps p (by simp)), hits_of_table kw nm hkw hnm, ih (fun q hq => hps q (by simp [hq]))]
+    split <;> simp
+
+theorem tier_hits (kw : Txt) (hkw : kw ∈ canon) (i : IT) (hnm : i.name ∈ canon) (hps : ∀ p ∈ i.subs, PTShape i.name p) (o : Int) :
+    lineHits kw (itLines i) o = if T kw i.name then tierStarts i o else [] := by
+  unfold itLines tierStarts
+  simp only [lineHits]
+  have e : hdrLine i = i.name ++ ':' :: (t " size = " ++ natDec i.subs.length) := by simp [hdrLine, t]
+  have d1 := digits_no 'f' (by decide) i.subs.length
+  have d2 := digits_no 'w' (by decide) i.subs.length
+  have hh : findAll kw (hdrLine i) = findAll kw i.name := by
+    rw [e]; apply nameLine_hits kw hkw _ _ ':' (Or.inl rfl)
+    · simp [t, d1]
+    · simp [t, d2]
+  rw [hh, hits_of_table kw i.name hkw hnm, subs_hits kw i.name hkw hnm i.subs hps]
+  have : o + ↑(hdrLine i).length + 1 = o + (↑(hdrLine i).length + 1) := by omega
+  rw [this]
+  split <;> simp
+
+theorem mem_canon_of_shape {its : List IT} (h : Shape its) : ∀ i ∈ its, i.name ∈ canon := by
+  intro i hi
+  exact h.names.subset (List.mem_map.2 ⟨i, hi, rfl⟩)
+
+theorem shape_tail {i : IT} {is : List IT} (h : Shape (i :: is)) : Shape is := by
+  refine ⟨?_, fun j hj => h.subs j (by simp [hj])⟩
+  have := h.names
+  simp only [List.map_cons] at this
+  exact (List.sublist_cons_self _ _).trans this
+
+/-- **all hits of a keyword in a container body**: the name rows of the tiers whose name contains it -/
+theorem body_hits (kw : Txt) (hkw : kw ∈ canon) (its : List IT) (h : Shape its) (o : Int) :
+    lineHits kw (bodyLines its) o = (groups its o).flatMap fun g => if T kw g.1 then g.2 else [] := by
+  induction its generalizing o with
+  | nil => simp [bodyLines, lineHits, groups]
+  | cons i is ih =>
+    have hi := mem_canon_of_shape h i (by simp)
+    simp only [bodyLines, List.map_cons, List.flatten_cons, lineHits_append, groups, List.flatMap_cons]
+    rw [tier_hits kw hkw i hi (h.subs i (by simp))]
+    have := ih (shape_tail h) (o + tierSpan i)
+    simp only [bodyLines, tierSpan] at this
+    rw [this]; rfl
+
+/-! ### the starts are strictly increasing -/
+
+theorem span_nonneg (ls : List Txt) : 0 ≤ span ls := by
+  induction ls with
+  | nil => simp [span]
+  | cons l rest ih => simp only [span]; omega
+
+theorem span_subLines_pos (p : PT) : 0 < span (subLines p) := by
+  unfold subLines
+  simp only [List.cons_append, span]
+  have := span_nonneg ([] ++ pointRows (t "    ") 0 p.pts)
+  omega
+
+def subsSpan (ps : List PT) : Int := span (ps.map subLines).flatten
+
+theorem subsSpan_cons (p : PT) (ps : List PT) : subsSpan (p :: ps) = span (subLines p) + subsSpan ps := by
+  simp [subsSpan, span_append]
+
+theorem subStarts_bounds (ps : List PT) (o : Int) : ∀ v ∈ subStarts ps o, o ≤ v ∧ v < o + subsSpan ps := by
+  induction ps generalizing o with
+  | nil => intro v hv; simp [subStarts] at hv
+  | cons p rest ih =>
+    intro v hv
+    have hp := span_subLines_pos p
+    have hr : 0 ≤ subsSpan rest := span_nonneg _
+    rw [subsSpan_cons]
+    simp only [subStarts, List.mem_cons] at hv
+    rcases hv with rfl | hv
+    · omega
+    · have := ih _ v hv; omega
+
+theorem subStarts_sorted (ps : List PT) (o : Int) : (subStarts ps o).Pairwise (· < ·) := by
+  induction ps generalizing o with
+  | nil => simp [subStarts]
+  | cons p rest ih =>
+    simp only [subStarts, List.pairwise_cons]
+    refine ⟨?_, ih _⟩
+    intro v hv
+    have := subStarts_bounds rest _ v hv
+    have hp := span_subLines_pos p
+    omega
+
+theorem tierSpan_eq (i : IT) : tierSpan i = ((hdrLine i).length + 1) + subsSpan i.subs := by
+  simp [tierSpan, itLines, span, subsSpan]
+
+theorem tierStarts_bounds (i : IT) (o : Int) : ∀ v ∈ tierStarts i o, o ≤ v ∧ v < o + tierSpan i := by
+  intro v hv
+  have hr : 0 ≤ subsSpan i.subs := span_nonneg _
+  rw [tierSpan_eq]
+  simp only [tierStarts, List.mem_cons] at hv
+  rcases hv with rfl | hv
+  · omega
+  · have := subStarts_bounds _ _ v hv; omega
+
+theorem tierStarts_sorted (i : IT) (o : Int) : (tierStarts i o).Pairwise (· < ·) := by
+  simp only [tierStarts, List.pairwise_cons]
+  refine ⟨?_, subStarts_sorted _ _⟩
+  intro v hv
+  have := subStarts_bounds _ _ v hv; omega
+
+theorem span_bodyLines_cons (i : IT) (is : List IT) : span (bodyLines (i :: is)) = tierSpan i + span (bodyLines is) := by
+  simp [bodyLines, span_append, tierSpan]
+
+theorem groups_bounds (its : List IT) (o : Int) : ∀ g ∈ groups its o, ∀ v ∈ g.2, o ≤ v ∧ v < o + span (bodyLines its) := by
+  induction its generalizing o with
+  | nil => intro g hg; simp [groups] at hg
+  | cons i is ih =>
+    intro g hg v hv
+    rw [span_bodyLines_cons]
+    have h1 : 0 ≤ span (bodyLines is) := span_nonneg _
+    have h2 : 0 ≤ tierSpan i := span_nonneg _
+    simp only [groups, List.mem_cons] at hg
+    rcases hg with rfl | hg
+    · have := tierStarts_bounds i o v hv; omega
+    · have := ih _ g hg v hv; omega
+
+theorem groups_names (its : List IT) (o : Int) : (groups its o).map (·.1) = its.map (·.name) := by
+  induction its generalizing o with
+  | nil => rfl
+  | cons i is ih => simp [groups, ih]
+
+theorem groups_disjoint (its : List IT) (o : Int) : ∀ g ∈ groups its o, ∀ g' ∈ groups its o, g.1 ≠ g'.1 →
+    ∀ v ∈ g.2, v ∉ g'.2 := by
+  induction its generalizing o with
+  | nil => intro g hg; simp [groups] at hg
+  | cons i is ih =>
+    intro g hg g' hg' hne v hv hv'
+    simp only [groups, List.mem_cons] at hg hg'
+    rcases hg with rfl | hg <;> rcases hg' with rfl | hg'
+    · exact hne rfl
+    · have a := tierStarts_bounds i o v hv
+      have b := groups_bounds is _ g' hg' v hv'
+      omega
+    · have a := tierStarts_bounds i o v hv'
+      have b := groups_bounds is _ g hg v hv
+      omega
+    · exact ih _ g hg g' hg' hne v hv hv'
+
+theorem starts_sorted (its : List IT) (o : Int) : ((groups its o).flatMap (·.2)).Pairwise (· < ·) := by
+  induction its generalizing o with
+  | nil => simp [groups]
+  | cons i is ih =>
+    simp only [groups, List.flatMap_cons, List.pairwise_append]
+    refine ⟨tierStarts_sorted i o, ih _, ?_⟩
+    intro a ha b hb
+    obtain ⟨g, hg, hbg⟩ := List.mem_flatMap.1 hb
+    have x := tierStarts_bounds i o a ha
+    have y := groups_bounds is _ g hg b hbg
+    omega
+
+theorem insertSorted_le (x : Int) (l : List Int) (h : ∀ y ∈ l, x ≤ y) : insertSorted x l = x :: l := by
+  cases l with
+  | nil => rfl
+  | cons y ys => simp [insertSorted, h y (by simp)]
+
+theorem sortInts_sorted (l : List Int) (h : l.Pairwise (· < ·)) : sortInts l = l := by
+  induction l with
+  | nil => rfl
+  | cons x xs ih =>
+    rw [List.pairwise_cons] at h
+    simp only [sortInts, List.foldr_cons]
+    have : List.foldr insertSorted [] xs = xs := ih h.2
+    rw [this]
+    exact insertSorted_le x xs (fun y hy => Int.le_of_lt (h.1 y hy))
+
+/-! ### from the hits to the six index lists -/
+
+/-- the starts of the tier named `c` -/
+def sel {β : Type} (c : Txt) (G : List (Txt × List β)) : List β := G.flatMap fun g => if g.1 = c then g.2 else []
+
+theorem flatMap_congr' {α β} (l : List α) (f g : α → List β) (h : ∀ a ∈ l, f a = g a) : l.flatMap f = l.flatMap g := by
+  induction l with
+  | nil => rfl
+  | cons a as ih =>
+    simp only [List.flatMap_cons, h a (by simp)]
+    rw [ih (fun b hb => h b (by simp [hb]))]
+
+theorem sub_ne_formants : ∀ c ∈ subFilterList, c ≠ t "formants" := by decide
+
+theorem T_sub (c nm : Txt) (hc : c ∈ subFilterList) : T c nm = decide (nm = c) := by
+  have := sub_ne_formants c hc
+  unfold T
+  by_cases h : nm = c
+  · simp [h]
+  · have h' : ¬ c = nm := fun e => h e.symm
+    simp [h, h', this]
+
+theorem hits_sub (c : Txt) (hc : c ∈ subFilterList) (G : List (Txt × List Int)) :
+    (G.flatMap fun g => if T c g.1 then g.2 else []) = sel c G := by
+  unfold sel
+  apply flatMap_congr'
+  intro g _
+  rw [T_sub c g.1 hc]
+  by_cases h : g.1 = c <;> simp [h]
+
+theorem T_formants : ∀ nm ∈ canon, T (t "formants") nm = decide (nm ≠ t "bandwidths") := by decide
+
+theorem canon_cases : ∀ nm ∈ canon, nm = t "formants" ∨ nm = t "bandwidths" ∨ (nm ∈ subFilterList ∧ nm ≠ t "bandwidths" ∧ nm ≠ t "formants") := by
+  decide
+
+theorem bandwidths_sub : t "bandwidths" ∈ subFilterList := by decide
+
+/-- "'Formant' search query finds duplicates -- remove them": what is left are the name rows of the tier `formants` -/
+theorem newFormant_eq (its : List IT) (h : Shape its) (o : Int) :
+    let G := groups its o
+    let F := G.flatMap fun g => if T (t "formants") g.1 then g.2 else []
+    let S := subFilterList.map fun c => G.flatMap fun g => if T c g.1 then g.2 else []
+    (F.filter fun v => S.all fun l => !l.contains v) = sel (t "formants") G := by
+  intro G F S
+  have hS : S = subFilterList.map fun c => sel c G := by
+    apply List.map_congr_left; intro c hc; exact hits_sub c hc G
+  show List.filter _ (List.flatMap _ G) = _
+  rw [List.filter_flatMap]
+  unfold sel
+  apply flatMap_congr'
+  intro g hg
+  have hgn : g.1 ∈ canon := by
+    have : g.1 ∈ (groups its o).map (·.1) := List.mem_map.2 ⟨g, hg, rfl⟩
+    rw [groups_names] at this
+    obtain ⟨i, hi, hie⟩ := List.mem_map.1 this
+    rw [← hie]; exact mem_canon_of_shape h i hi
+  rw [T_formants g.1 hgn]
+  rcases canon_cases g.1 hgn with hf | hb | ⟨hs, hnb, hnf⟩
+  · -- the tier `formants`: none of its starts is in a sub-filter list
+    have hb : g.1 ≠ t "bandwidths" := by rw [hf]; decide
+    simp only [hb, ne_eq, not_false_eq_true, decide_true, if_true, hf]
+    apply List.filter_eq_self.2
+    intro v hv
+    rw [hS, List.all_map, List.all_eq_true]
+    intro c hc
+    simp only [Function.comp, Bool.not_eq_true', List.contains_eq_mem, decide_eq_false_iff_not]
+    intro hmem
+    obtain ⟨g', hg', hv'⟩ := List.mem_flatMap.1 hmem
+    by_cases hg'c : g'.1 = c
+    · simp only [hg'c, if_true] at hv'
+      have hne : g.1 ≠ g'.1 := by rw [hf, hg'c]; exact fun e => sub_ne_formants c hc e.symm
+      exact groups_disjoint its o g hg g' hg' hne v hv hv'
+    · simp [hg'c] at hv'
+  · have : t "bandwidths" ≠ t "formants" := by decide
+    simp [hb, this]
+  · simp only [hnb, ne_eq, not_false_eq_true, decide_true, if_true, hnf, if_false]
+    apply List.filter_eq_nil_iff.2
+    intro v hv
+    rw [hS, List.all_map]
+    simp only [List.all_eq_true, Function.comp, Bool.not_eq_true', List.contains_eq_mem, decide_eq_false_iff_not]
+    intro hall
+    exact hall g.1 hs (List.mem_flatMap.2 ⟨g, hg, by simp [hv]⟩)
+
+theorem canon_nodup : canon.Nodup := by decide
+
+theorem sel_absent {β : Type} (c : Txt) (G : List (Txt × List β)) (h : c ∉ G.map (·.1)) : sel c G = [] := by
+  unfold sel
+  induction G with
+  | nil => rfl
+  | cons g G' ih =>
+    have h1 : g.1 ≠ c := by intro e; apply h; simp [e]
+    have h2 : c ∉ G'.map (·.1) := by intro e; apply h; simp at e ⊢; exact Or.inr e
+    simp only [List.flatMap_cons, h1, if_false, List.nil_append]
+    exact ih h2
+
+theorem flatten_map_nil {α β} (l : List α) (f : α → List β) (h : ∀ a ∈ l, f a = []) : (l.map f).flatten = [] := by
+  induction l with
+  | nil => rfl
+  | cons a as ih => simp [h a (by simp), ih (fun b hb => h b (by simp [hb]))]
+
+/-- the tiers stand in canonical order, so concatenating the six lists gives all starts in file order -/
+theorem group_flatten {β : Type} (cs : List Txt) (hnd : cs.Nodup) (G : List (Txt × List β)) (hs : (G.map (·.1)).Sublist cs) :
+    (cs.map fun c => sel c G).flatten = G.flatMap (·.2) := by
+  induction cs generalizing G with
+  | nil =>
+    have : G = [] := by cases G with | nil => rfl | cons g _ => simp at hs
+    subst this; rfl
+  | cons c cs ih =>
+    obtain ⟨hc, hnd'⟩ := List.nodup_cons.1 hnd
+    rcases List.sublist_cons_iff.1 hs with hskip | ⟨r, hr, hrs⟩
+    · have : c ∉ G.map (·.1) := fun e => hc (hskip.subset e)
+      simp only [List.map_cons, List.flatten_cons, sel_absent c G this, List.nil_append]
+      exact ih hnd' G hskip
+    · cases G with
+      | nil => simp at hr
+      | cons g G' =>
+        simp only [List.map_cons, List.cons.injEq] at hr
+        obtain ⟨hg, hG'⟩ := hr
+        subst hG'
+        have hcG' : c ∉ G'.map (·.1) := fun e => hc (hrs.subset e)
+        simp only [List.map_cons, List.flatten_cons, List.flatMap_cons]
+        have e1 : sel c (g :: G') = g.2 := by
+          simp only [sel, List.flatMap_cons, hg, if_true]
+          have := sel_absent c G' hcG'; unfold sel at this; rw [this]; simp
+        have e2 : (cs.map fun c' => sel c' (g :: G')) = cs.map fun c' => sel c' G' := by
+          apply List.map_congr_left
+          intro c' hc'
+          have : g.1 ≠ c' := by rw [hg]; intro e; exact hc (e ▸ hc')
+          simp [sel, this]
+        rw [e1, e2, ih hnd' G' hrs]
+
+theorem groups_append (a b : List IT) (o : Int) : groups (a ++ b) o = groups a o ++ groups b (o + span (bodyLines a)) := by
+  induction a generalizing o with
+  | nil => simp [groups, bodyLines, span]
+  | cons i is ih =>
+    simp only [List.cons_append, groups, ih, span_bodyLines_cons]
+    have : o + tierSpan i + span (bodyLines is) = o + (tierSpan i + span (bodyLines is)) := by omega
+    rw [this]
+
+theorem span_bodyLines_append (a b : List IT) : span (bodyLines (a ++ b)) = span (bodyLines a) + span (bodyLines b) := by
+  simp [bodyLines, span_append]
+
+/-- one index list, closed by its end: the `for subList in indexListOfLists` loop (as repaired) -/
+def close (master : List Int) (len : Nat) (subList : List Int) : List Int :=
+  match subList.getLast? with
+  | none => subList
+  | some val =>
+    match master[master.idxOf val + 1]? with
+    | some nxt => subList ++ [nxt]
+    | none => subList ++ [(len : Int)]
+
+/-- what the closed index list of the tier named `c` is: its name rows and the newline that ends its text -/
+def closedSel (c : Txt) : List IT → Int → List Int
+  | [], _ => []
+  | i :: is, o => if i.name = c then tierStarts i o ++ [o + tierSpan i] else closedSel c is (o + tierSpan i)
+
+theorem closedSel_absent (c : Txt) (its : List IT) (o : Int) (h : c ∉ its.map (·.name)) : closedSel c its o = [] := by
+  induction its generalizing o with
+  | nil => rfl
+  | cons i is ih =>
+    have h1 : i.name ≠ c := by intro e; apply h; simp [e]
+    have h2 : c ∉ is.map (·.name) := by intro e; apply h; simp at e ⊢; exact Or.inr e
+    simp [closedSel, h1, ih _ h2]
+
+theorem closedSel_skip (c : Txt) (a b : List IT) (o : Int) (h : c ∉ a.map (·.name)) :
+    closedSel c (a ++ b) o = closedSel c b (o + span (bodyLines a)) := by
+  induction a generalizing o with
+  | nil => simp [bodyLines, span]
+  | cons i is ih =>
+    have h1 : i.name ≠ c := by intro e; apply h; simp [e]
+    have h2 : c ∉ is.map (·.name) := by intro e; apply h; simp at e ⊢; exact Or.inr e
+    simp only [List.cons_append, closedSel, h1, if_false, ih _ h2, span_bodyLines_cons]
+    congr 1; omega
+
+theorem idxOf_last (S' : List Int) (v : Int) (h : v ∉ S') : (S' ++ [v]).idxOf v = S'.length := by
+  rw [List.idxOf_append]; simp [h, List.idxOf_cons]
+
+theorem close_sel (its : List IT) (h : Shape its) (c : Txt) (len : Nat) (hlen : (len : Int) = -1 + span (bodyLines its)) :
+    close ((groups its (-1)).flatMap (·.2)) len (sel c (groups its (-1))) = closedSel c its (-1) := by
+  by_cases hc : c ∈ its.map (·.name)
+  · obtain ⟨i, hi, hic⟩ := List.mem_map.1 hc
+    obtain ⟨ia, ib, hits⟩ := List.append_of_mem hi
+    have hnd : (its.map (·.name)).Nodup := h.names.nodup canon_nodup
+    rw [hits] at hnd
+    simp only [List.map_append, List.map_cons] at hnd
+    have hnd' := List.nodup_append.1 hnd
+    have hca : c ∉ ia.map (·.name) := by
+      intro e; exact hnd'.2.2 c e c (by simp [hic]) rfl
+    have hcb : c ∉ ib.map (·.name) := by
+      have := (List.nodup_cons.1 hnd'.2.1).1; rwa [hic] at this
+    subst hits
+    let oi : Int := -1 + span (bodyLines ia)
+    have hG : groups (ia ++ i :: ib) (-1) = groups ia (-1) ++ (i.name, tierStarts i oi) :: groups ib (oi + tierSpan i) := by
+      rw [groups_append]; rfl
+    have hsel : sel c (groups (ia ++ i :: ib) (-1)) = tierStarts i oi := by
+      rw [hG]
+      have a1 := sel_absent c (groups ia (-1)) (by rw [groups_names]; exact hca)
+      have a2 := sel_absent c (groups ib (oi + tierSpan i)) (by rw [groups_names]; exact hcb)
+      unfold sel at a1 a2 ⊢
+      simp [List.flatMap_append, a1, a2, hic]
+    have hcl : closedSel c (ia ++ i :: ib) (-1) = tierStarts i oi ++ [oi + tierSpan i] := by
+      rw [closedSel_skip c ia _ _ hca]; simp [closedSel, hic, oi]
+    rw [hsel, hcl, hG]
+    -- the last start of the tier and its position in the master list
+    have hne : tierStarts i oi ≠ [] := by simp [tierStarts]
+    have hS := List.dropLast_concat_getLast hne
+    generalize hv : (tierStarts i oi).getLast hne = v at hS
+    generalize hS' : (tierStarts i oi).dropLast = S' at hS
+    have hsorted := tierStarts_sorted i oi
+    rw [← hS] at hsorted
+    have hvS' : v ∉ S' := by
+      intro e
+      have := (List.pairwise_append.1 hsorted).2.2 v e v (by simp)
+      omega
+    have hvmem : v ∈ tierStarts i oi := by rw [← hS]; simp
+    have hvb := tierStarts_bounds i oi v hvmem
+    have hvA : v ∉ (groups ia (-1)).flatMap (·.2) := by
+      intro e
+      obtain ⟨g, hg, hvg⟩ := List.mem_flatMap.1 e
+      have := groups_bounds ia (-1) g hg v hvg
+      simp only [oi] at hvb; omega
+    have hlast : (tierStarts i oi).getLast? = some v := by rw [← hS]; simp
+    unfold close
+    rw [hlast]
+    simp only [List.flatMap_append, List.flatMap_cons]
+    rw [← hS]
+    have hidx : (((groups ia (-1)).flatMap (·.2)) ++ ((S' ++ [v]) ++ (groups ib (oi + tierSpan i)).flatMap (·.2))).idxOf v
+        = ((groups ia (-1)).flatMap (·.2)).length + S'.length := by
+      rw [List.idxOf_append]
+      simp only [hvA, if_false]
+      rw [List.idxOf_append]
+      have : v ∈ S' ++ [v] := by simp
+      simp only [this, if_true, idxOf_last S' v hvS']
+      omega
+    rw [hidx]
+    have hget : (((groups ia (-1)).flatMap (·.2)) ++ ((S' ++ [v]) ++ (groups ib (oi + tierSpan i)).flatMap (·.2)))[((groups ia (-1)).flatMap (·.2)).length + S'.length + 1]?
+        = ((groups ib (oi + tierSpan i)).flatMap (·.2))[0]? := by
+      rw [List.getElem?_append_right (by omega), List.getElem?_append_right (by simp; omega)]
+      congr 1
+      simp; omega
+    rw [hget]
+    cases ib with
+    | nil =>
+      simp only [groups, List.flatMap_nil, List.getElem?_nil]
+      have : (len : Int) = oi + tierSpan i := by
+        rw [hlen, span_bodyLines_append, span_bodyLines_cons]; simp [bodyLines, span, oi]; omega
+      rw [this]
+    | cons i2 ib' =>
+      simp [groups, tierStarts]
+  · rw [sel_absent c _ (by rw [groups_names]; exact hc), closedSel_absent c its _ hc]
+    rfl
+
+/-! ### the closed index lists of a written container body -/
+
+theorem canon_nonl : ∀ nm ∈ canon, '\n' ∉ nm := by decide
+
+theorem pointRows_nonl (ind : Txt) (hind : '\n' ∉ ind) (pts : List (Txt × Txt)) (i : Nat)
+    (h : ∀ q ∈ pts, '\n' ∉ q.1 ∧ '\n' ∉ q.2) : ∀ l ∈ pointRows ind i pts, '\n' ∉ l := by
+  induction pts generalizing i with
+  | nil => intro l hl; simp [pointRows] at hl
+  | cons q rest ih =>
+    obtain ⟨n, v⟩ := q
+    obtain ⟨hn, hv⟩ := h (n, v) (by simp)
+    intro l hl
+    simp only [pointRows, List.mem_cons] at hl
+    have d := nl_not_mem_natDec (i + 1)
+    rcases hl with rfl | rfl | rfl | hl
+    · have a : '\n' ∉ t "points [" := by decide
+      have b : '\n' ∉ t "]:" := by decide
+      simp [hind, a, b, d]
+    · have a : '\n' ∉ t "    number = " := by decide
+      simp [hind, a, hn]
+    · have a : '\n' ∉ t "    value = " := by decide
+      simp [hind, a, hv]
+    · exact ih (i + 1) (fun q hq => h q (by simp [hq])) l hl
+
+theorem subLines_nonl (nm : Txt) (hnm : '\n' ∉ nm) (p : PT) (hp : PTShape nm p) : ∀ l ∈ subLines p, '\n' ∉ l := by
+  obtain ⟨⟨k, hk⟩, ⟨⟨_, _, h1⟩, _, _⟩, ⟨⟨_, _, h2⟩, _, _⟩, hpts⟩ := hp
+  intro l hl
+  simp only [subLines, List.mem_append, List.mem_cons, List.not_mem_nil, or_false] at hl
+  rcases hl with (rfl | rfl | rfl | rfl) | hl
+  · have d := nl_not_mem_natDec k
+    have a : '\n' ∉ t " [" := by decide
+    have b : '\n' ∉ t "]" := by decide
+    have c : '\n' ∉ t ":" := by decide
+    rw [hk]; simp [hnm, a, b, c, d]
+  · have a : '\n' ∉ t "    xmin = " := by decide
+    simp [a, h1]
+  · have a : '\n' ∉ t "    xmax = " := by decide
+    simp [a, h2]
+  · have a : '\n' ∉ t "    points: size = " := by decide
+    simp [a, nl_not_mem_natDec p.pts.length]
+  · exact pointRows_nonl (t "    ") (by decide) p.pts 0 (fun q hq => ⟨(hpts q hq).1.1.2.2, (hpts q hq).2.1.2.2⟩) l hl
+
+theorem bodyLines_nonl (its : List IT) (h : Shape its) : ∀ l ∈ bodyLines its, '\n' ∉ l := by
+  intro l hl
+  simp only [bodyLines, List.mem_flatten, List.mem_map] at hl
+  obtain ⟨ls, ⟨i, hi, rfl⟩, hl⟩ := hl
+  have hnm := canon_nonl i.name (mem_canon_of_shape h i hi)
+  simp only [itLines, List.mem_cons, List.mem_flatten, List.mem_map] at hl
+  rcases hl with rfl | ⟨ls, ⟨p, hp, rfl⟩, hl⟩
+  · have a : '\n' ∉ t ": size = " := by decide
+    simp [hdrLine, hnm, a, nl_not_mem_natDec i.subs.length]
+  · exact subLines_nonl i.name hnm p (h.subs i hi p hp) l hl
+
+theorem bodyLines_ne_nil (i : IT) (is : List IT) : bodyLines (i :: is) ≠ [] := by
+  simp [bodyLines, itLines]
+
+theorem canon_eq : canon = t "formants" :: subFilterList := rfl
+
+/-- **the index bookkeeping of `_proccessContainerTierInput` on a written container body**: for each of
+the six keywords, the name rows of the tier of that name followed by the newline that ends the tier's text -/
+theorem containerIndexLists_body (its : List IT) (h : Shape its) :
+    containerIndexLists (join ['\n'] (bodyLines its)) = canon.map fun c => closedSel c its (-1) := by
+  cases hits : its with
+  | nil =>
+    have e : join ['\n'] (bodyLines ([] : List IT)) = [] := rfl
+    rw [e]; decide
+  | cons i0 is0 =>
+    rw [← hits]
+    have hnonl := bodyLines_nonl its h
+    have hfi : ∀ kw ∈ canon, findIndices (join ['\n'] (bodyLines its)) kw
+        = (groups its (-1)).flatMap fun g => if T kw g.1 then g.2 else [] := by
+      intro kw hkw
+      obtain ⟨h1, h2, _, _⟩ := canon_kw_nonl kw hkw
+      rw [findIndices_lines kw h1 h2 _ hnonl, body_hits kw hkw its h]
+    have hlen : ((join ['\n'] (bodyLines its)).length : Int) = -1 + span (bodyLines its) := by
+      have := span_join (bodyLines its) (by rw [hits]; exact bodyLines_ne_nil _ _)
+      omega
+    have hsub : subFilterList.map (findIndices (join ['\n'] (bodyLines its)))
+        = subFilterList.map fun c => (groups its (-1)).flatMap fun g => if T c g.1 then g.2 else [] := by
+      apply List.map_congr_left
+      intro c hc
+      exact hfi c (by rw [canon_eq]; exact List.mem_cons_of_mem _ hc)
+    have hlists : (((findIndices (join ['\n'] (bodyLines its)) "formants".toList).filter fun v =>
+          (subFilterList.map (findIndices (join ['\n'] (bodyLines its)))).all fun l => !l.contains v)
+        :: subFilterList.map (findIndices (join ['\n'] (bodyLines its))))
+        = canon.map fun c => sel c (groups its (-1)) := by
+      rw [hsub, show "formants".toList = t "formants" from rfl, hfi (t "formants") (by decide)]
+      rw [newFormant_eq its h (-1), canon_eq, List.map_cons]
+      congr 1
+      apply List.map_congr_left
+      intro c hc
+      exact hits_sub c hc _
+    have hmaster : sortInts ((canon.map fun c => sel c (groups its (-1))).flatten) = (groups its (-1)).flatMap (·.2) := by
+      rw [group_flatten canon canon_nodup _ (by rw [groups_names]; exact h.names)]
+      exact sortInts_sorted _ (starts_sorted its (-1))
+    simp only [containerIndexLists]
+    rw [hlists, hmaster, List.map_map]
+    apply List.map_congr_left
+    intro c _
+    exact close_sel its h c _ hlen
+
+/-! ### the slices between consecutive entries of a closed index list -/
+
+/-- starts of consecutive segments (each followed by a newline), and the end -/
+def segStarts : List Txt → Int → List Int
+  | [], o => [o]
+  | s :: ss, o => o :: segStarts ss (o + s.length + 1)
+
+theorem pySlice_atI (s pre mid post : Txt) (a b : Int) (hs : s = pre ++ (mid ++ post)) (ha : a = (pre.length : Int))
+    (hb : b = a + mid.length) : pySlice s a b = mid := by
+  have hb' : b = ((pre.length + mid.length : Nat) : Int) := by rw [hb, ha]; omega
+  rw [ha, hb']
+  exact pySlice_at s pre mid post _ _ hs rfl rfl
+
+/-- in `X ⏎ seg₀ ⏎ seg₁ … ⏎ segₙ Y` the slice between the `j`-th and `j+1`-st start is `⏎ segⱼ` in full -/
+theorem window_slices (segs : List Txt) : ∀ (X Y : Txt) (j : Nat), j < segs.length →
+    pySlice (X ++ '\n' :: (join ['\n'] segs ++ Y)) ((segStarts segs X.length).getD j 0) ((segStarts segs X.length).getD (j + 1) 0)
+      = '\n' :: segs.getD j [] := by
+  induction segs with
+  | nil => intro X Y j hj; simp at hj
+  | cons s rest ih =>
+    intro X Y j hj
+    cases rest with
+    | nil =>
+      have : j = 0 := by simp at hj; omega
+      subst this
+      simp only [segStarts, List.getD_cons_zero, join, List.getD_cons_succ]
+      exact pySlice_atI _ X ('\n' :: s) Y _ _ (by simp) rfl (by simp; omega)
+    | cons s2 r2 =>
+      cases j with
+      | zero =>
+        simp only [segStarts, List.getD_cons_zero, List.getD_cons_succ]
+        rw [join_cons_cons]
+        exact pySlice_atI _ X ('\n' :: s) (['\n'] ++ join ['\n'] (s2 :: r2) ++ Y) _ _ (by simp) rfl (by simp; omega)
+      | succ j =>
+        have hj' : j < (s2 :: r2).length := by simp at hj ⊢; omega
+        have := ih (X ++ '\n' :: s) Y j hj'
+        rw [join_cons_cons]
+        have e : X ++ '\n' :: (s ++ ['\n'] ++ join ['\n'] (s2 :: r2) ++ Y) = (X ++ '\n' :: s) ++ '\n' :: (join ['\n'] (s2 :: r2) ++ Y) := by simp
+        have e2 : ((X ++ '\n' :: s).length : Int) = (X.length : Int) + s.length + 1 := by simp; omega
+        rw [e]
+        simp only [segStarts, List.getD_cons_succ] at this ⊢
+        rw [e2] at this
+        exact this
+
+/-- text of a sub tier without its trailing newline -/
+def subBody (p : PT) : Txt := join ['\n'] (subLines p)
+
+theorem subBody_eq (p : PT) : subBody p = p.subText.dropLast := by
+  rw [subText_eq]; simp [subBody]
+
+theorem subStarts_segStarts (ps : List PT) (o : Int) :
+    subStarts ps o ++ [o + subsSpan ps] = segStarts (ps.map subBody) o := by
+  induction ps generalizing o with
+  | nil => simp [subStarts, segStarts, subsSpan, span]
+  | cons p rest ih =>
+    have hs : span (subLines p) = ((subBody p).length : Int) + 1 := by
+      rw [subBody, ← span_join _ (by simp [subLines])]
+    simp only [subStarts, List.map_cons, segStarts, List.cons_append, subsSpan_cons]
+    have e : o + ↑(subBody p).length + 1 = o + span (subLines p) := by omega
+    rw [e, ← ih]
+    congr 3; omega
+
+/-! ### a sub tier's text has no blanks at its ends -/
+
+theorem join_getLast? (sep : Txt) (ls : List Txt) (L : Txt) (h : ls.getLast? = some L) (hL : L ≠ []) :
+    (join sep ls).getLast? = L.getLast? := by
+  induction ls with
+  | nil => simp at h
+  | cons x rest ih =>
+    cases rest with
+    | nil => simp at h; subst h; rfl
+    | cons y r =>
+      rw [join_cons_cons, List.getLast?_append]
+      rw [List.getLast?_cons_cons] at h
+      rw [ih h]
+      cases hl : L.getLast? with
+      | none => cases L with
+        | nil => exact absurd rfl hL
+        | cons a as => simp at hl
+      | some c => rfl
+
+theorem numeral_ne_nil {n : Txt} (h : Numeral n) : n ≠ [] := by
+  intro e; subst e
+  have := h.2.1
+  rw [show fclass [] = none from by decide] at this
+  cases this
+
+theorem getLast?_cons3 {α} (a b c : α) (l : List α) (h : l ≠ []) : (a :: b :: c :: l).getLast? = l.getLast? := by
+  cases l with
+  | nil => exact absurd rfl h
+  | cons x xs => simp [List.getLast?_cons_cons]
+
+theorem pointRows_last (ind : Txt) (pts : List (Txt × Txt)) (i : Nat) (hne : pts ≠ []) :
+    ∃ q, pts.getLast? = some q ∧ (pointRows ind i pts).getLast? = some (ind ++ t "    value = " ++ q.2) := by
+  induction pts generalizing i with
+  | nil => exact absurd rfl hne
+  | cons q rest ih =>
+    obtain ⟨n, v⟩ := q
+    cases rest with
+    | nil => exact ⟨(n, v), rfl, by simp [pointRows]⟩
+    | cons q2 r2 =>
+      obtain ⟨q', h1, h2⟩ := ih (i + 1) (by simp)
+      refine ⟨q', by rw [List.getLast?_cons_cons]; exact h1, ?_⟩
+      have hne' : pointRows ind (i + 1) (q2 :: r2) ≠ [] := by
+        obtain ⟨a, b⟩ := q2; simp [pointRows]
+      have : pointRows ind i ((n, v) :: q2 :: r2) = (ind ++ t "points [" ++ natDec (i + 1) ++ t "]:") ::
+          (ind ++ t "    number = " ++ n) :: (ind ++ t "    value = " ++ v) :: pointRows ind (i + 1) (q2 :: r2) := rfl
+      rw [this, getLast?_cons3 _ _ _ _ hne', h2]
+
+theorem canon_head_bool : ∀ nm ∈ canon, (match nm with | c :: _ => !pyIsSpace c | [] => false) = true := by decide
+
+theorem canon_head (nm : Txt) (h : nm ∈ canon) : ∃ c rest, nm = c :: rest ∧ pyIsSpace c = false := by
+  have := canon_head_bool nm h
+  cases nm with
+  | nil => simp at this
+  | cons c rest => exact ⟨c, rest, rfl, by simpa using this⟩
+
+theorem subBody_stripped (nm : Txt) (hnm : nm ∈ canon) (p : PT) (hp : PTShape nm p) : stripList (subBody p) = subBody p := by
+  apply stripList_of_noEdge
+  obtain ⟨c0, r0, hc0, hsp0⟩ := canon_head nm hnm
+  obtain ⟨⟨k, hk⟩, _, _, hpts⟩ := hp
+  constructor
+  · intro c rest hc
+    have : subBody p = c0 :: (r0 ++ t " [" ++ natDec k ++ t "]" ++ t ":" ++ ['\n'] ++ join ['\n'] (subLines p).tail) := by
+      simp only [subBody, subLines, List.cons_append, List.nil_append, List.tail_cons]
+      rw [join_cons_cons, hk, hc0]; simp
+    rw [this] at hc
+    cases hc; exact hsp0
+  · intro c hc
+    -- the last row
+    have hlast : ∃ L, (subLines p).getLast? = some L ∧ ∃ cl, L.getLast? = some cl ∧ pyIsSpace cl = false := by
+      by_cases hne : p.pts = []
+      · refine ⟨t "    points: size = " ++ natDec 0, by simp [subLines, hne, pointRows], '0', by decide, by decide⟩
+      · obtain ⟨q, hq, hrow⟩ := pointRows_last (t "    ") p.pts 0 hne
+        have hqm : q ∈ p.pts := List.mem_of_getLast? hq
+        obtain ⟨_, hv⟩ := hpts q hqm
+        obtain ⟨cl, hcl, hsp⟩ := last_of_stripped q.2 hv.1.1 (numeral_ne_nil hv.1)
+        refine ⟨t "    " ++ t "    value = " ++ q.2, ?_, cl, ?_, hsp⟩
+        · simp only [subLines]
+          rw [List.getLast?_append, hrow]; rfl
+        · rw [List.getLast?_append, hcl]; rfl
+    obtain ⟨L, hL, cl, hcl, hsp⟩ := hlast
+    have hLne : L ≠ [] := by intro e; subst e; simp at hcl
+    rw [subBody, join_getLast? _ _ L hL hLne, hcl] at hc
+    cases hc; exact hsp
+
+theorem strip_nl_cons (tx : Txt) (h : stripList tx = tx) : stripList ('\n' :: tx) = tx := by
+  have := stripList_pad ['\n'] tx [] (by intro c hc; simp at hc; subst hc; decide) (by intro c hc; simp at hc) h
+  simpa using this
+
+/-! ### (b) `section_slice_complete` -/
+
+theorem join_append (sep : Txt) (a b : List Txt) (ha : a ≠ []) (hb : b ≠ []) :
+    join sep (a ++ b) = join sep a ++ sep ++ join sep b := by
+  induction a with
+  | nil => exact absurd rfl ha
+  | cons x xs ih =>
+    cases xs with
+    | nil =>
+      cases b with
+      | nil => exact absurd rfl hb
+      | cons y ys => simp [join]
+    | cons x2 xs2 =>
+      rw [List.cons_append, List.cons_append, join_cons_cons, ← List.cons_append, ih (by simp), join_cons_cons]
+      simp
+
+theorem join_flatten (sep : Txt) (ll : List (List Txt)) (hne : ∀ l ∈ ll, l ≠ []) (h : ll ≠ []) :
+    join sep ll.flatten = join sep (ll.map (join sep)) := by
+  induction ll with
+  | nil => exact absurd rfl h
+  | cons l rest ih =>
+    cases rest with
+    | nil => simp [join]
+    | cons l2 r2 =>
+      have hfl : (l2 :: r2).flatten ≠ [] := by
+        have := hne l2 (by simp)
+        cases l2 with
+        | nil => exact absurd rfl this
+        | cons a as => simp
+      rw [List.flatten_cons, join_append sep l _ (hne l (by simp)) hfl, ih (fun x hx => hne x (by simp [hx])) (by simp)]
+      simp only [List.map_cons, join_cons_cons]
+
+/-- the stripped slices `_getSectionHeader` cuts for one index list (the `for j in range(len(indexList) - 1)` loop) -/
+def sliceList (body : Txt) (l : List Int) : List Txt :=
+  (List.range (l.length - 1)).map fun j => stripList (pySlice body (l.getD j 0) (l.getD (j + 1) 0))
+
+theorem sliceList_cons_drop (body : Txt) (a : Int) (l : List Int) :
+    (sliceList body (a :: l)).drop 1 = sliceList body l := by
+  unfold sliceList
+  cases l with
+  | nil => simp
+  | cons b l' =>
+    simp only [List.length_cons, Nat.add_sub_cancel]
+    rw [List.range_succ_eq_map, List.map_cons, List.drop_one, List.tail_cons, List.map_map]
+    apply List.map_congr_left
+    intro j _
+    simp [List.getD_cons_succ]
+
+theorem subLines_ne_nil (p : PT) : subLines p ≠ [] := by simp [subLines]
+
+theorem segStarts_length (segs : List Txt) (o : Int) : (segStarts segs o).length = segs.length + 1 := by
+  induction segs generalizing o with
+  | nil => rfl
+  | cons s ss ih => simp [segStarts, ih]
+
+/-- the slices cut for the sub tiers of one intermediate tier that stands in a body after `ia` and before `ib` -/
+theorem tier_slices (ia ib : List IT) (i : IT) (hi : i.name ∈ canon) (hps : ∀ p ∈ i.subs, PTShape i.name p) :
+    sliceList (join ['\n'] (bodyLines (ia ++ i :: ib)))
+        (subStarts i.subs (-1 + span (bodyLines ia) + ((hdrLine i).length + 1)) ++ [-1 + span (bodyLines ia) + tierSpan i])
+      = i.subs.map subBody := by
+  by_cases hsub : i.subs = []
+  · simp [hsub, subStarts, sliceList]
+  -- the body around the sub tiers: X ⏎ sub tiers Y
+  let X : Txt := join ['\n'] (bodyLines ia ++ [hdrLine i])
+  let Y : Txt := if ib = [] then [] else '\n' :: join ['\n'] (bodyLines ib)
+  have hX : (X.length : Int) = -1 + span (bodyLines ia) + ((hdrLine i).length + 1) := by
+    have := span_join (bodyLines ia ++ [hdrLine i]) (by simp)
+    rw [span_append] at this
+    simp only [span] at this
+    show ((join ['\n'] (bodyLines ia ++ [hdrLine i])).length : Int) = _
+    omega
+  have hbody : join ['\n'] (bodyLines (ia ++ i :: ib)) = X ++ '\n' :: (join ['\n'] (i.subs.map subBody) ++ Y) := by
+    have hflat : (i.subs.map subLines).flatten ≠ [] := by
+      cases hs : i.subs with
+      | nil => exact absurd hs hsub
+      | cons p ps =>
+        have := subLines_ne_nil p
+        cases hp : subLines p with
+        | nil => exact absurd hp this
+        | cons a as => simp [hp]
+    have e1 : bodyLines (ia ++ i :: ib) = (bodyLines ia ++ [hdrLine i]) ++ ((i.subs.map subLines).flatten ++ bodyLines ib) := by
+      simp [bodyLines, itLines]
+    rw [e1, join_append _ _ _ (by simp) (by simp [hflat])]
+    have e2 : join ['\n'] ((i.subs.map subLines).flatten ++ bodyLines ib) = join ['\n'] (i.subs.map subBody) ++ Y := by
+      have e3 : join ['\n'] (i.subs.map subLines).flatten = join ['\n'] (i.subs.map subBody) := by
+        rw [join_flatten _ _ (by intro l hl; obtain ⟨p, _, rfl⟩ := List.mem_map.1 hl; exact subLines_ne_nil p)
+          (by simpa using hsub), List.map_map]; rfl
+      cases hib : ib with
+      | nil => simp [Y, hib, bodyLines, e3]
+      | cons i2 ib' =>
+        rw [join_append _ _ _ hflat (bodyLines_ne_nil i2 ib'), e3]
+        simp [Y, hib]
+    rw [e2]; simp [X]
+  have hst : subStarts i.subs (-1 + span (bodyLines ia) + ((hdrLine i).length + 1)) ++ [-1 + span (bodyLines ia) + tierSpan i]
+      = segStarts (i.subs.map subBody) X.length := by
+    rw [hX, ← subStarts_segStarts, tierSpan_eq]
+    congr 2; omega
+  rw [hst, hbody]
+  unfold sliceList
+  rw [segStarts_length, List.length_map, Nat.add_sub_cancel]
+  apply List.ext_getElem
+  · simp
+  · intro j h1 h2
+    simp only [List.getElem_map, List.getElem_range]
+    have hj : j < (i.subs.map subBody).length := by simpa using h2
+    have hj' : j < i.subs.length := by simpa using h2
+    rw [window_slices (i.subs.map subBody) X Y j hj]
+    have : (i.subs.map subBody).getD j [] = subBody (i.subs[j]'hj') := by
+      simp [List.getD_eq_getElem?_getD, List.getElem?_map, hj']
+    rw [this]
+    exact strip_nl_cons _ (subBody_stripped i.name hi _ (hps _ (List.getElem_mem _)))
+
+theorem filter_name_unique (ia ib : List IT) (i : IT) (c : Txt) (hic : i.name = c)
+    (ha : c ∉ ia.map (·.name)) (hb : c ∉ ib.map (·.name)) :
+    (ia ++ i :: ib).filter (fun j => decide (j.name = c)) = [i] := by
+  have fa : ia.filter (fun j => decide (j.name = c)) = [] := by
+    apply List.filter_eq_nil_iff.2
+    intro j hj; simp only [decide_eq_true_eq]; intro e; exact ha (List.mem_map.2 ⟨j, hj, e⟩)
+  have fb : ib.filter (fun j => decide (j.name = c)) = [] := by
+    apply List.filter_eq_nil_iff.2
+    intro j hj; simp only [decide_eq_true_eq]; intro e; exact hb (List.mem_map.2 ⟨j, hj, e⟩)
+  simp [List.filter_append, List.filter_cons, fa, fb, hic]
+
+/-- **(b)** For a container section in the writer's layout, the slice the (repaired) bookkeeping of
+`_proccessContainerTierInput` hands to `_getSectionHeader` for each sub tier is that sub tier's text
+**in full** — `KlattSubPointTier.getAsText()` without its trailing newline; in particular it ends with
+the complete last row.  (The first slice of every index list is the tier's `name: size = n` header row,
+which `_getSectionHeader` rejects with ValueError; it is dropped here.) -/
+theorem section_slice_complete (its : List IT) (h : Shape its) :
+    (containerIndexLists (join ['\n'] (bodyLines its))).map
+        (fun l => (sliceList (join ['\n'] (bodyLines its)) l).drop 1)
+      = canon.map fun c => (its.filter fun i => decide (i.name = c)).flatMap fun i => i.subs.map fun p => p.subText.dropLast := by
+  rw [containerIndexLists_body its h, List.map_map]
+  apply List.map_congr_left
+  intro c _
+  simp only [Function.comp]
+  by_cases hc : c ∈ its.map (·.name)
+  · obtain ⟨i, hi, hic⟩ := List.mem_map.1 hc
+    obtain ⟨ia, ib, hits⟩ := List.append_of_mem hi
+    have hnd : (its.map (·.name)).Nodup := h.names.nodup canon_nodup
+    rw [hits] at hnd
+    simp only [List.map_append, List.map_cons] at hnd
+    have hnd' := List.nodup_append.1 hnd
+    have hca : c ∉ ia.map (·.name) := by
+      intro e; exact hnd'.2.2 c e c (by simp [hic]) rfl
+    have hcb : c ∉ ib.map (·.name) := by
+      have := (List.nodup_cons.1 hnd'.2.1).1; rwa [hic] at this
+    have hcanon := mem_canon_of_shape h i hi
+    have hps := h.subs i hi
+    subst hits
+    rw [closedSel_skip c ia _ _ hca, filter_name_unique ia ib i c hic hca hcb]
+    simp only [closedSel, hic, if_true, tierStarts, List.cons_append, sliceList_cons_drop, List.flatMap_cons,
+      List.flatMap_nil, List.append_nil]
+    have := tier_slices ia ib i hcanon hps
+    have e : -1 + span (bodyLines ia) + tierSpan i = -1 + span (bodyLines ia) + tierSpan i := rfl
+    rw [this]
+    apply List.map_congr_left
+    intro p _
+    exact subBody_eq p
+  · rw [closedSel_absent c its _ hc]
+    have : its.filter (fun i => decide (i.name = c)) = [] := by
+      apply List.filter_eq_nil_iff.2
+      intro j hj; simp only [decide_eq_true_eq]; intro e; exact hc (List.mem_map.2 ⟨j, hj, e⟩)
+    simp [this, sliceList]
+
+/-! ### non-vacuity of (b), and the defect the repair removed -/
+
+/-- two formants (the second without points), one bandwidth tier; short integer values -/
+def exIts : List IT :=
+  [⟨t "formants", [⟨t "formants [1]", t "0", t "1", [(t "0.5", t "55")]⟩, ⟨t "formants [2]", t "0", t "1", []⟩]⟩,
+   ⟨t "bandwidths", [⟨t "bandwidths [1]", t "0", t "1", [(t "0.25", t "60")]⟩]⟩]
+
+def exBody : Txt := join ['\n'] (bodyLines exIts)
+
+#guard exBody = t "formants: size = 2\nformants [1]:\n    xmin = 0\n    xmax = 1\n    points: size = 1\n    points [1]:\n        number = 0.5\n        value = 55\nformants [2]:\n    xmin = 0\n    xmax = 1\n    points: size = 0\nbandwidths: size = 1\nbandwidths [1]:\n    xmin = 0\n    xmax = 1\n    points: size = 1\n    points [1]:\n        number = 0.25\n        value = 60"
+
+#guard (containerIndexLists exBody).map (fun l => (sliceList exBody l).drop 1)
+  = [[t "formants [1]:\n    xmin = 0\n    xmax = 1\n    points: size = 1\n    points [1]:\n        number = 0.5\n        value = 55",
+      t "formants [2]:\n    xmin = 0\n    xmax = 1\n    points: size = 0"],
+     [t "bandwidths [1]:\n    xmin = 0\n    xmax = 1\n    points: size = 1\n    points [1]:\n        number = 0.25\n        value = 60"],
+     [], [], [], []]
+
+-- the old bookkeeping (`masterIndexList[ii + 1] - 1`, `-1` for the last list): every index list loses the last
+-- character of its last slice — "size = 0" becomes "size =", "60" becomes "6"
+#guard (containerIndexListsOld exBody).map (fun l => (sliceList exBody l).drop 1)
+  = [[t "formants [1]:\n    xmin = 0\n    xmax = 1\n    points: size = 1\n    points [1]:\n        number = 0.5\n        value = 55",
+      t "formants [2]:\n    xmin = 0\n    xmax = 1\n    points: size ="],
+     [t "bandwidths [1]:\n    xmin = 0\n    xmax = 1\n    points: size = 1\n    points [1]:\n        number = 0.25\n        value = 6"],
+     [], [], [], []]
+
+set_option exponentiation.threshold 2000 in
+theorem knumeral_examples : KNumeral (t "0") ∧ KNumeral (t "1") ∧ KNumeral (t "0.5") ∧ KNumeral (t "55") ∧
+    KNumeral (t "0.25") ∧ KNumeral (t "60") := by
+  refine ⟨?_, ?_, ?_, ?_, ?_, ?_⟩ <;> exact ⟨⟨by decide, by decide, by decide⟩, by decide, by decide⟩
+
+/-- the hypotheses of `section_slice_complete` are satisfiable -/
+theorem exIts_shape : Shape exIts := by
+  obtain ⟨h0, h1, h05, h55, h025, h60⟩ := knumeral_examples
+  refine ⟨by decide, ?_⟩
+  intro i hi p hp
+  simp only [exIts, List.mem_cons, List.not_mem_nil, or_false] at hi
+  rcases hi with rfl | rfl
+  · simp only [List.mem_cons, List.not_mem_nil, or_false] at hp
+    rcases hp with rfl | rfl
+    · exact ⟨⟨1, by decide⟩, h0, h1, by intro q hq; simp at hq; subst hq; exact ⟨h05, h55⟩⟩
+    · exact ⟨⟨2, by decide⟩, h0, h1, by intro q hq; simp at hq⟩
+  · simp only [List.mem_cons, List.not_mem_nil, or_false] at hp
+    subst hp
+    exact ⟨⟨1, by decide⟩, h0, h1, by intro q hq; simp at hq; subst hq; exact ⟨h025, h60⟩⟩
+
+set_option maxRecDepth 1000000 in
+/-- **the defect repaired in 10be40b, on the model**: with the old end indices (`masterIndexList[ii + 1] - 1`,
+`-1`) the slice of the last sub tier of an index list is *not* the sub tier's text: its last character is
+missing (`value = 60` is read as `value = 6`). -/
+theorem section_slice_drops_last_char_old :
+    ((containerIndexListsOld exBody).map fun l => (sliceList exBody l).getLast?).getD 1 none
+      = some (t "bandwidths [1]:\n    xmin = 0\n    xmax = 1\n    points: size = 1\n    points [1]:\n        number = 0.25\n        value = 6") := by
+  decide +kernel
+
+/-! ## (e) reading back a written container section -/
+
+/-! ### `fclass` of a `"%d"` count -/
+
+theorem digitChar_val (d : Nat) (h : d < 10) : (digitChar d).toNat - 48 = d := by
+  have : d = 0 ∨ d = 1 ∨ d = 2 ∨ d = 3 ∨ d = 4 ∨ d = 5 ∨ d = 6 ∨ d = 7 ∨ d = 8 ∨ d = 9 := by omega
+  rcases this with rfl | rfl | rfl | rfl | rfl | rfl | rfl | rfl | rfl | rfl <;> decide
+
+def dv (a : Nat) (ds : Txt) : Nat := ds.foldl (fun n c => 10 * n + (c.toNat - 48)) a
+
+theorem dv_natDecAux (f : Nat) : ∀ (n : Nat) (acc : Txt) (a : Nat), n < 10 ^ f →
+    ∃ L, dv a (natDecAux f n acc) = dv (a * 10 ^ L + n) acc := by
+  induction f with
+  | zero => intro n acc a h; exact ⟨0, by simp at h; subst h; simp [natDecAux]⟩
+  | succ f ih =>
+    intro n acc a h
+    unfold natDecAux
+    by_cases hn : n < 10
+    · refine ⟨1, ?_⟩
+      simp only [hn, if_true, dv, List.foldl_cons, digitChar_val n hn]
+      congr 1; omega
+    · simp only [hn, if_false]
+      have h10 : n / 10 < 10 ^ f := by
+        rw [Nat.pow_succ] at h; omega
+      obtain ⟨L, hL⟩ := ih (n / 10) (digitChar (n % 10) :: acc) a h10
+      refine ⟨L + 1, ?_⟩
+      rw [hL]
+      simp only [dv, List.foldl_cons, digitChar_val (n % 10) (Nat.mod_lt _ (by decide))]
+      congr 1
+      rw [Nat.pow_succ]
+      have : a * (10 ^ L * 10) = 10 * (a * 10 ^ L) := by
+        rw [Nat.mul_comm (10 ^ L) 10, ← Nat.mul_assoc, Nat.mul_comm a 10, Nat.mul_assoc]
+      omega
+
+theorem digitsVal_natDec (n : Nat) : digitsVal (natDec n) = n := by
+  have h : n < 10 ^ (n + 1) := by
+    have : n < 10 ^ n := Nat.lt_pow_self (by decide)
+    rw [Nat.pow_succ]; omega
+  obtain ⟨L, hL⟩ := dv_natDecAux (n + 1) n [] 0 h
+  simpa [dv, digitsVal, natDec] using hL
+
+theorem isDigit_toNat (c : Char) (h : isDigit c = true) : 48 ≤ c.toNat ∧ c.toNat ≤ 57 := by
+  simp only [isDigit, Bool.and_eq_true, decide_eq_true_eq] at h
+  have h1 : '0'.val ≤ c.val := h.1
+  have h2 : c.val ≤ '9'.val := h.2
+  rw [UInt32.le_iff_toNat_le] at h1 h2
+  exact ⟨h1, h2⟩
+
+theorem char_ne_of_toNat {c d : Char} (h : c.toNat ≠ d.toNat) : c ≠ d := fun e => h (e ▸ rfl)
+
+theorem digitsGo_digits (ds acc : Txt) (h : ∀ c ∈ ds, isDigit c = true) : digitsGo ds acc = (acc.reverse ++ ds, []) := by
+  induction ds generalizing acc with
+  | nil => simp [digitsGo]
+  | cons c cs ih =>
+    simp only [digitsGo, h c (by simp), if_true]
+    rw [ih _ (fun d hd => h d (by simp [hd]))]
+    simp
+
+theorem stripLBy_head (p : Char → Bool) (c : Char) (cs : Txt) (h : p c = false) : stripLBy p (c :: cs) = c :: cs := by
+  simp [stripLBy, h]
+
+theorem digit_not_numSpace (c : Char) (h : isDigit c = true) : isNumSpace c = false := by
+  obtain ⟨h1, h2⟩ := isDigit_toNat c h
+  simp only [isNumSpace, pyIsSpace, Bool.and_eq_false_iff, Bool.or_eq_false_iff, Bool.and_eq_false_iff]
+  left
+  simp only [decide_eq_false_iff_not, Bool.and_eq_false_iff, beq_eq_false_iff_ne, ne_eq]
+  refine ⟨⟨⟨⟨⟨⟨⟨⟨⟨⟨?_, ?_⟩, ?_⟩, ?_⟩, ?_⟩, ?_⟩, ?_⟩, ?_⟩, ?_⟩, ?_⟩, ?_⟩ <;> omega
+
+theorem numStrip_digits (ds : Txt) (h : ∀ c ∈ ds, isDigit c = true) : numStrip ds = ds := by
+  unfold numStrip
+  cases ds with
+  | nil => rfl
+  | cons c cs =>
+    rw [stripLBy_head _ c cs (digit_not_numSpace c (h c (by simp)))]
+    cases hr : (c :: cs).reverse with
+    | nil => simp at hr
+    | cons d dsr =>
+      have hd : d ∈ c :: cs := by
+        have : d ∈ (c :: cs).reverse := by rw [hr]; simp
+        exact List.mem_reverse.1 this
+      rw [stripLBy_head _ d dsr (digit_not_numSpace d (h d hd)), ← hr, List.reverse_reverse]
+
+theorem splitSign_digit (c : Char) (cs : Txt) (h : isDigit c = true) : splitSign (c :: cs) = (false, c :: cs) := by
+  obtain ⟨h1, h2⟩ := isDigit_toNat c h
+  have a : c ≠ '-' := char_ne_of_toNat (by simp; omega)
+  have b : c ≠ '+' := char_ne_of_toNat (by simp; omega)
+  unfold splitSign
+  split
+  · rename_i heq; simp only [List.cons.injEq] at heq; exact absurd heq.1 a
+  · rename_i heq; simp only [List.cons.injEq] at heq; exact absurd heq.1 b
+  · rfl
+
+theorem lower_digits (ds : Txt) (h : ∀ c ∈ ds, isDigit c = true) : lower ds = ds := by
+  unfold lower
+  induction ds with
+  | nil => rfl
+  | cons c cs ih =>
+    obtain ⟨h1, h2⟩ := isDigit_toNat c (h c (by simp))
+    have : ¬ ('A' ≤ c ∧ c ≤ 'Z') := by
+      intro ⟨ha, _⟩
+      have : 'A'.val ≤ c.val := ha
+      rw [UInt32.le_iff_toNat_le] at this
+      have e : 'A'.val.toNat = 65 := by decide
+      have e2 : c.val.toNat = c.toNat := rfl
+      omega
+    simp only [List.map_cons, this, if_false]
+    rw [ih (fun d hd => h d (by simp [hd]))]
+
+theorem natDecAux_ne_nil (f n : Nat) (acc : Txt) (h : acc ≠ []) : natDecAux f n acc ≠ [] := by
+  induction f generalizing n acc with
+  | zero => simpa [natDecAux] using h
+  | succ f ih =>
+    unfold natDecAux
+    split
+    · simp
+    · exact ih _ _ (by simp)
+
+theorem natDec_ne_nil (n : Nat) : natDec n ≠ [] := by
+  unfold natDec natDecAux
+  split
+  · simp
+  · exact natDecAux_ne_nil _ _ _ (by simp)
+
+/-- `float("%d" % n)`: zero for `0`, positive otherwise -/
+theorem fclass_natDec (n : Nat) : fclass (natDec n) = some (if n = 0 then FClass.zero else FClass.pos) := by
+  have hd := natDec_digits n
+  have hval := digitsVal_natDec n
+  cases hds : natDec n with
+  | nil =>
+    -- natDec is never empty
+    exact absurd hds (natDec_ne_nil n)
+  | cons c cs =>
+    rw [hds] at hd hval
+    have hc := hd c (by simp)
+    obtain ⟨h1, h2⟩ := isDigit_toNat c hc
+    have hi : c ≠ 'i' := char_ne_of_toNat (by simp; omega)
+    have hn : c ≠ 'n' := char_ne_of_toNat (by simp; omega)
+    unfold fclass
+    rw [numStrip_digits _ hd, splitSign_digit c cs hc]
+    simp only [lower_digits _ hd, digitsGo_digits _ [] hd]
+    have e1 : (c :: cs) ≠ "inf".toList := by intro e; cases e; exact hi rfl
+    have e2 : (c :: cs) ≠ "infinity".toList := by intro e; cases e; exact hi rfl
+    have e3 : (c :: cs) ≠ "nan".toList := by intro e; cases e; exact hn rfl
+    simp [e1, e2, e3, hval, underflows]
+    by_cases hz : n = 0 <;> simp [hz, hi, hn]
+
+/-! ### parsing one sub tier's text -/
+
+theorem afterEq_row (k n : Txt) (hk : '=' ∉ k) (hn : '=' ∉ n) (hs : stripList n = n) (hf : (fclass n).isSome) :
+    afterEq (k ++ '=' :: ' ' :: n) = .ok n := by
+  unfold afterEq
+  rw [Clean.pySplit_two '=' k (' ' :: n) hk (by simp [hn])]
+  simp only [List.getElem?_cons_succ, List.getElem?_cons_zero]
+  rw [stripList_blank_cons n hs]
+  exact floatTok_ok n hf
+
+/-- the numerals of a file that is read back: additionally without `=` -/
+def ENumeral (n : Txt) : Prop := KNumeral n ∧ '=' ∉ n
+
+def sizeLine (p : PT) : Txt := t "    points: size = " ++ natDec p.pts.length
+
+/-- the tail `_getSectionHeader` returns for a sub tier's text: the size row and, if there are points, the point rows -/
+def tailOf (p : PT) : List Txt :=
+  if p.pts = [] then [sizeLine p] else [sizeLine p, join ['\n'] (pointRows (t "    ") 0 p.pts)]
+
+theorem pointRows_ne_nil (ind : Txt) (i : Nat) (pts : List (Txt × Txt)) (h : pts ≠ []) : pointRows ind i pts ≠ [] := by
+  cases pts with
+  | nil => exact absurd rfl h
+  | cons q rest => obtain ⟨a, b⟩ := q; simp [pointRows]
+
+theorem split4_subBody (nm : Txt) (hnm : '\n' ∉ nm) (p : PT) (hp : PTShape nm p) :
+    pySplitN '\n' 4 (subBody p) = [p.name ++ t ":", t "    xmin = " ++ p.xmin, t "    xmax = " ++ p.xmax] ++ tailOf p := by
+  have hnl := subLines_nonl nm hnm p hp
+  have h1 : '\n' ∉ p.name ++ t ":" := hnl _ (by simp [subLines])
+  have h2 : '\n' ∉ t "    xmin = " ++ p.xmin := hnl _ (by simp [subLines])
+  have h3 : '\n' ∉ t "    xmax = " ++ p.xmax := hnl _ (by simp [subLines])
+  have h4 : '\n' ∉ sizeLine p := hnl _ (by simp [subLines, sizeLine])
+  unfold subBody subLines tailOf
+  by_cases hpts : p.pts = []
+  · simp only [hpts, pointRows, List.append_nil, if_true, join_cons_cons, join, List.length_nil]
+    have e : ∀ (a b c d : Txt), a ++ ['\n'] ++ (b ++ ['\n'] ++ (c ++ ['\n'] ++ d)) = a ++ '\n' :: (b ++ '\n' :: (c ++ '\n' :: d)) := by
+      intros; simp
+    rw [e, pySplitN_hit _ _ _ _ h1, pySplitN_hit _ _ _ _ h2, pySplitN_hit _ _ _ _ h3]
+    have h4' : '\n' ∉ t "    points: size = " ++ natDec 0 := by
+      have := h4; simp only [sizeLine, hpts, List.length_nil] at this; exact this
+    rw [pySplitN_no _ _ _ h4']
+    simp [sizeLine, hpts]
+  · simp only [hpts, if_false]
+    rw [join_append _ _ _ (by simp) (pointRows_ne_nil _ _ _ hpts)]
+    simp only [join_cons_cons, join]
+    have e : ∀ (a b c d r : Txt), a ++ ['\n'] ++ (b ++ ['\n'] ++ (c ++ ['\n'] ++ d)) ++ ['\n'] ++ r
+        = a ++ '\n' :: (b ++ '\n' :: (c ++ '\n' :: (d ++ '\n' :: r))) := by
+      intros; simp
+    have h4' : '\n' ∉ t "    points: size = " ++ natDec p.pts.length := h4
+    rw [e, pySplitN_hit _ _ _ _ h1, pySplitN_hit _ _ _ _ h2, pySplitN_hit _ _ _ _ h3, pySplitN_hit _ _ _ _ h4', pySplitN_zero]
+    simp [sizeLine]
+
+theorem canon_noq : ∀ nm ∈ canon, '?' ∉ nm ∧ '=' ∉ nm ∧ ' ' ∉ nm := by decide
+
+theorem nameLine_stripped (nm : Txt) (hnm : nm ∈ canon) (k : Nat) :
+    stripList (nm ++ t " [" ++ natDec k ++ t "]" ++ t ":") = nm ++ t " [" ++ natDec k ++ t "]" ++ t ":" := by
+  apply stripList_of_noEdge
+  obtain ⟨c0, r0, hc0, hsp0⟩ := canon_head nm hnm
+  constructor
+  · intro c rest hc
+    rw [hc0] at hc; simp only [List.cons_append, List.cons.injEq] at hc
+    rw [← hc.1]; exact hsp0
+  · intro c hc
+    have : (nm ++ t " [" ++ natDec k ++ t "]" ++ t ":").getLast? = some ':' := by
+      rw [List.getLast?_append]; rfl
+    rw [this] at hc; cases hc; decide
+
+/-- `_getSectionHeader` on a slice that is a sub tier's text -/
+theorem getSectionHeader_sub (data : Txt) (l : List Int) (j : Nat) (a b : Int) (ha : l[j]? = some a) (hb : l[j + 1]? = some b)
+    (nm : Txt) (hnm : nm ∈ canon) (p : PT) (hp : PTShape nm p) (he1 : '=' ∉ p.xmin) (he2 : '=' ∉ p.xmax)
+    (hsd : stripList (pySlice data a b) = subBody p) :
+    getSectionHeader data l j = .ok (p.name ++ t ":", p.xmin, p.xmax, subBody p, tailOf p) := by
+  unfold getSectionHeader
+  simp only [ha, hb, hsd, bind, Except.bind, pure, Except.pure]
+  rw [split4_subBody nm (canon_nonl nm hnm) p hp]
+  obtain ⟨⟨k, hk⟩, ⟨⟨hs1, hf1, _⟩, _, _⟩, ⟨⟨hs2, hf2, _⟩, _, _⟩, _⟩ := hp
+  simp only [List.cons_append, List.nil_append]
+  have hq : '?' ∉ p.name ++ t ":" := by
+    rw [hk]
+    have := (canon_noq nm hnm).1
+    have d := digits_no '?' (by decide) k
+    simp [t, this, d]
+  rw [Clean.pySplit_no '?' _ hq]
+  simp only [List.headD_cons]
+  have hname : stripList (p.name ++ t ":") = p.name ++ t ":" := by
+    rw [hk]; exact nameLine_stripped nm hnm k
+  have e1 : t "    xmin = " ++ p.xmin = t "    xmin " ++ '=' :: ' ' :: p.xmin := by simp [t]
+  have e2 : t "    xmax = " ++ p.xmax = t "    xmax " ++ '=' :: ' ' :: p.xmax := by simp [t]
+  rw [hname, e1, e2, afterEq_row _ _ (by decide) he1 hs1 hf1, afterEq_row _ _ (by decide) he2 hs2 hf2]
+
+/-- `_buildEntries` on that tail gives the tier's points -/
+theorem buildEntries_tail (p : PT) (hpts : ∀ q ∈ p.pts, KNumeral q.1 ∧ KNumeral q.2) : buildEntries (tailOf p) = .ok p.pts := by
+  unfold tailOf
+  by_cases h : p.pts = []
+  · simp [h, buildEntries]; rfl
+  · simp only [h, if_false, buildEntries]
+    have e : sizeLine p = t "    points: size " ++ '=' :: ' ' :: natDec p.pts.length := by simp [sizeLine, t]
+    have hfc := fclass_natDec p.pts.length
+    have hlen : p.pts.length ≠ 0 := by intro e; exact h (List.length_eq_zero_iff.1 e)
+    have hstrip : stripList (natDec p.pts.length) = natDec p.pts.length := by
+      apply stripList_of_noEdge
+      have hd := natDec_digits p.pts.length
+      have nsp : ∀ c, isDigit c = true → pyIsSpace c = false := by
+        intro c hc
+        have := digit_not_numSpace c hc
+        obtain ⟨h1, h2⟩ := isDigit_toNat c hc
+        simp only [isNumSpace, Bool.and_eq_false_iff] at this
+        rcases this with h | h
+        · exact h
+        · simp at h; omega
+      constructor
+      · intro c rest hc; exact nsp c (hd c (by rw [hc]; simp))
+      · intro c hc; exact nsp c (hd c (List.mem_of_getLast? hc))
+    rw [e, afterEq_row _ _ (by decide) (eq_not_mem_natDec _) hstrip (by rw [hfc]; rfl)]
+    simp only [bind, Except.bind, hfc, hlen, if_false, if_true]
+    exact processSectionData_written (t "    ") (by decide) p.pts (fun q hq => ⟨(hpts q hq).1.1, (hpts q hq).2.1⟩)
+
+/-! ### the loop over one index list -/
+
+/-- the writer's shape, plus what reading back needs: no `=` inside a span numeral, at least one sub tier
+per intermediate tier, distinct sub tier names -/
+structure Shape2 (its : List IT) : Prop extends Shape its where
+  spans : ∀ i ∈ its, ∀ p ∈ i.subs, '=' ∉ p.xmin ∧ '=' ∉ p.xmax
+  nonempty : ∀ i ∈ its, i.subs ≠ []
+  distinct : ∀ i ∈ its, hasDup (i.subs.map (·.name)) = false
+
+theorem getElem?_getD {α} (L : List α) (d : Nat) (x : α) (h : d < L.length) : L[d]? = some (L.getD d x) := by
+  simp [List.getD_eq_getElem?_getD, List.getElem?_eq_getElem h]
+
+/-- the closed index list of the tier `i` standing after `ia` -/
+def closedOf (ia : List IT) (i : IT) : List Int :=
+  (-1 + span (bodyLines ia)) ::
+    (subStarts i.subs (-1 + span (bodyLines ia) + ((hdrLine i).length + 1)) ++ [-1 + span (bodyLines ia) + tierSpan i])
+
+theorem subStarts_length (ps : List PT) (o : Int) : (subStarts ps o).length = ps.length := by
+  induction ps generalizing o with
+  | nil => rfl
+  | cons p rest ih => simp [subStarts, ih]
+
+theorem header_at (ia ib : List IT) (i : IT) (hi : i.name ∈ canon) (hps : ∀ p ∈ i.subs, PTShape i.name p)
+    (hsp : ∀ p ∈ i.subs, '=' ∉ p.xmin ∧ '=' ∉ p.xmax)
+    (done rest : List PT) (p : PT) (hsubs : i.subs = done ++ p :: rest) :
+    getSectionHeader (join ['\n'] (bodyLines (ia ++ i :: ib))) (closedOf ia i) (done.length + 1)
+      = .ok (p.name ++ t ":", p.xmin, p.xmax, subBody p, tailOf p) := by
+  have hpm : p ∈ i.subs := by rw [hsubs]; simp
+  have hts := tier_slices ia ib i hi hps
+  generalize hL : subStarts i.subs (-1 + span (bodyLines ia) + ((hdrLine i).length + 1)) ++ [-1 + span (bodyLines ia) + tierSpan i] = L at hts
+  have hLlen : L.length = i.subs.length + 1 := by rw [← hL]; simp [subStarts_length]
+  have hd : done.length < i.subs.length := by rw [hsubs]; simp
+  have hcl : closedOf ia i = (-1 + span (bodyLines ia)) :: L := by rw [closedOf, hL]
+  have ha : (closedOf ia i)[done.length + 1]? = some (L.getD done.length 0) := by
+    rw [hcl, List.getElem?_cons_succ]; exact getElem?_getD L _ 0 (by omega)
+  have hb : (closedOf ia i)[done.length + 1 + 1]? = some (L.getD (done.length + 1) 0) := by
+    rw [hcl, List.getElem?_cons_succ]; exact getElem?_getD L _ 0 (by omega)
+  have hsd : stripList (pySlice (join ['\n'] (bodyLines (ia ++ i :: ib))) (L.getD done.length 0) (L.getD (done.length + 1) 0)) = subBody p := by
+    have h1 : (sliceList (join ['\n'] (bodyLines (ia ++ i :: ib))) L)[done.length]? = (i.subs.map subBody)[done.length]? := by rw [hts]
+    unfold sliceList at h1
+    rw [hLlen, Nat.add_sub_cancel, List.getElem?_map, List.getElem?_range hd, List.getElem?_map] at h1
+    have : i.subs[done.length]? = some p := by rw [hsubs]; simp
+    rw [this] at h1
+    simpa using h1
+  exact getSectionHeader_sub _ _ _ _ _ ha hb i.name hi p (hps p hpm) (hsp p hpm).1 (hsp p hpm).2 hsd
+
+theorem subTierLoop_subs (ia ib : List IT) (i : IT) (hi : i.name ∈ canon) (hps : ∀ p ∈ i.subs, PTShape i.name p)
+    (hsp : ∀ p ∈ i.subs, '=' ∉ p.xmin ∧ '=' ∉ p.xmax) (rest : List PT) :
+    ∀ (done : List PT) (sn : Option Txt) (acc : List PT), i.subs = done ++ rest →
+    subTierLoop (join ['\n'] (bodyLines (ia ++ i :: ib))) (closedOf ia i)
+        ((List.range rest.length).map (· + (done.length + 1))) sn acc
+      = .ok ((match rest.getLast? with | some q => some q.name | none => sn), acc ++ rest) := by
+  induction rest with
+  | nil => intro done sn acc _; simp [subTierLoop]; rfl
+  | cons p rest' ih =>
+    intro done sn acc hsubs
+    rw [List.length_cons, List.range_succ_eq_map, List.map_cons, List.map_map]
+    simp only [Nat.zero_add, subTierLoop]
+    rw [header_at ia ib i hi hps hsp done rest' p hsubs]
+    simp only [bind, Except.bind]
+    have hpm : p ∈ i.subs := by rw [hsubs]; simp
+    have hdl : (p.name ++ t ":").dropLast = p.name := by simp [t]
+    rw [hdl, buildEntries_tail p (hps p hpm).pts]
+    simp only
+    have := ih (done ++ [p]) (some p.name) (acc ++ [p]) (by rw [hsubs]; simp)
+    have e : (fun x => x + (done.length + 1)) ∘ Nat.succ = fun x => x + ((done ++ [p]).length + 1) := by
+      funext x; simp; omega
+    rw [e, this]
+    have hp' : (⟨p.name, p.xmin, p.xmax, p.pts⟩ : PT) = p := rfl
+    cases hr : rest'.getLast? with
+    | none =>
+      have : rest' = [] := by cases rest' with | nil => rfl | cons a as => simp at hr
+      subst this; simp
+    | some q => simp [List.getLast?_cons_cons, hr, List.getLast?_cons]
+
+theorem stripList_nl_cons_eq (x : Txt) : stripList ('\n' :: x) = stripList x := by
+  have : pyIsSpace '\n' = true := by decide
+  simp [stripList, stripL, this]
+
+theorem getSectionHeader_oneLine (data : Txt) (l : List Int) (j : Nat) (a b : Int) (ha : l[j]? = some a) (hb : l[j + 1]? = some b)
+    (h : '\n' ∉ stripList (pySlice data a b)) : getSectionHeader data l j = .error .valueError := by
+  unfold getSectionHeader
+  simp only [ha, hb, bind, Except.bind, pure, Except.pure]
+  rw [pySplitN_no _ _ _ h]
+  rfl
+
+theorem hdrLine_nonl (i : IT) (hi : i.name ∈ canon) : '\n' ∉ hdrLine i := by
+  have a : '\n' ∉ t ": size = " := by decide
+  simp [hdrLine, canon_nonl i.name hi, a, nl_not_mem_natDec i.subs.length]
+
+/-- the first slice of every index list is the `name: size = n` row (or empty, for the first tier): `_getSectionHeader` raises ValueError -/
+theorem header_slice_rejected (ia ib : List IT) (i : IT) (hi : i.name ∈ canon) (hne : i.subs ≠ []) :
+    getSectionHeader (join ['\n'] (bodyLines (ia ++ i :: ib))) (closedOf ia i) 0 = .error .valueError := by
+  obtain ⟨p0, ps, hps⟩ : ∃ p0 ps, i.subs = p0 :: ps := by
+    cases h : i.subs with
+    | nil => exact absurd h hne
+    | cons a as => exact ⟨a, as, rfl⟩
+  have ha : (closedOf ia i)[0]? = some (-1 + span (bodyLines ia)) := rfl
+  have hb : (closedOf ia i)[0 + 1]? = some (-1 + span (bodyLines ia) + ((hdrLine i).length + 1)) := by
+    simp [closedOf, hps, subStarts]
+  apply getSectionHeader_oneLine _ _ _ _ _ ha hb
+  have hH := hdrLine_nonl i hi
+  -- the body: (lines of ia) H ⏎ first sub tier …
+  have e1 : bodyLines (ia ++ i :: ib) = bodyLines ia ++ ([hdrLine i] ++ ((i.subs.map subLines).flatten ++ bodyLines ib)) := by
+    simp [bodyLines, itLines]
+  have hrest : (i.subs.map subLines).flatten ++ bodyLines ib ≠ [] := by
+    rw [hps]; simp [subLines]
+  cases hia : ia with
+  | nil =>
+    -- index -1: the slice is empty
+    have hbody : join ['\n'] (bodyLines ([] ++ i :: ib)) = hdrLine i ++ '\n' :: join ['\n'] ((i.subs.map subLines).flatten ++ bodyLines ib) := by
+      have : bodyLines ([] ++ i :: ib) = [hdrLine i] ++ ((i.subs.map subLines).flatten ++ bodyLines ib) := by
+        simp [bodyLines, itLines]
+      rw [this, join_append _ _ _ (by simp) hrest]; simp [join]
+    have hlen2 : 1 ≤ (join ['\n'] ((i.subs.map subLines).flatten ++ bodyLines ib)).length := by
+      rw [hps]
+      simp only [List.map_cons, List.flatten_cons, subLines, List.cons_append, List.nil_append]
+      rw [join_cons_cons]; simp; omega
+    rw [hbody]
+    generalize join ['\n'] ((i.subs.map subLines).flatten ++ bodyLines ib) = R at hlen2
+    simp only [bodyLines, List.map_nil, List.flatten_nil, span]
+    have : pySlice (hdrLine i ++ '\n' :: R) (-1 + 0) (-1 + 0 + (↑(hdrLine i).length + 1)) = [] := by
+      unfold pySlice normIdx
+      simp only [List.length_append, List.length_cons]
+      have h1 : ((-1 + 0 : Int) < 0) := by omega
+      have h2 : ¬ ((-1 + 0 : Int) + ↑((hdrLine i).length + (R.length + 1)) < 0) := by omega
+      have h3 : ¬ ((-1 + 0 + (↑(hdrLine i).length + 1) : Int) < 0) := by omega
+      have h4 : ¬ ((↑((hdrLine i).length + (R.length + 1)) : Int) < -1 + 0 + (↑(hdrLine i).length + 1)) := by omega
+      simp only [h1, h2, h3, h4, if_true, if_false]
+      have : (-1 + 0 + (↑(hdrLine i).length + 1) : Int).toNat - ((-1 + 0 : Int) + ↑((hdrLine i).length + (R.length + 1))).toNat = 0 := by omega
+      rw [this]; simp
+    rw [this]; decide
+  | cons i0 ia0 =>
+    rw [← hia]
+    have hiane : bodyLines ia ≠ [] := by rw [hia]; exact bodyLines_ne_nil _ _
+    have hbody : join ['\n'] (bodyLines (ia ++ i :: ib)) = join ['\n'] (bodyLines ia) ++ (('\n' :: hdrLine i) ++ '\n' :: join ['\n'] ((i.subs.map subLines).flatten ++ bodyLines ib)) := by
+      rw [e1, join_append _ _ _ hiane (by simp), join_append _ _ _ (by simp) hrest]; simp [join]
+    have hX : ((join ['\n'] (bodyLines ia)).length : Int) = -1 + span (bodyLines ia) := by
+      have := span_join _ hiane; omega
+    rw [pySlice_atI _ _ ('\n' :: hdrLine i) _ _ _ hbody hX.symm (by simp), stripList_nl_cons_eq]
+    exact fun e => hH (stripList_subset _ _ e)
+
+/-- the whole `for j in range(len(indexList) - 1)` loop for one tier: the header row is skipped, every sub tier is read -/
+theorem subTierLoop_tier (ia ib : List IT) (i : IT) (hi : i.name ∈ canon) (hps : ∀ p ∈ i.subs, PTShape i.name p)
+    (hsp : ∀ p ∈ i.subs, '=' ∉ p.xmin ∧ '=' ∉ p.xmax) (hne : i.subs ≠ []) (sn : Option Txt) :
+    subTierLoop (join ['\n'] (bodyLines (ia ++ i :: ib))) (closedOf ia i) (List.range ((closedOf ia i).length - 1)) sn []
+      = .ok ((i.subs.getLast?).map (·.name), i.subs) := by
+  have hlen : (closedOf ia i).length - 1 = i.subs.length + 1 := by simp [closedOf, subStarts_length]
+  rw [hlen, List.range_succ_eq_map]
+  simp only [subTierLoop, header_slice_rejected ia ib i hi hne]
+  have := subTierLoop_subs ia ib i hi hps hsp i.subs [] sn [] rfl
+  simp only [List.length_nil, Nat.zero_add, List.nil_append] at this
+  have e : (List.range i.subs.length).map Nat.succ = (List.range i.subs.length).map (· + 1) := rfl
+  rw [e, this]
+  cases h : i.subs.getLast? with
+  | none => cases hs : i.subs with
+    | nil => exact absurd hs hne
+    | cons a as => rw [hs] at h; simp at h
+  | some q => rfl
+
+/-! ### `buildContainer` over the six index lists -/
+
+theorem canon_nospace : ∀ nm ∈ canon, nm.all (fun c => !pyIsSpace c) = true := by decide
+
+theorem takeWhile_append_stop {α} (p : α → Bool) (a : List α) (c : α) (b : List α) (ha : ∀ x ∈ a, p x = true) (hc : p c = false) :
+    (a ++ c :: b).takeWhile p = a := by
+  induction a with
+  | nil => simp [List.takeWhile, hc]
+  | cons x xs ih => simp [List.takeWhile, ha x (by simp), ih (fun y hy => ha y (by simp [hy]))]
+
+theorem firstToken_subName (nm : Txt) (hnm : nm ∈ canon) (k : Nat) : firstToken (nm ++ t " [" ++ natDec k ++ t "]") = some nm := by
+  obtain ⟨c0, r0, hc0, hsp0⟩ := canon_head nm hnm
+  have hall := canon_nospace nm hnm
+  have e : nm ++ t " [" ++ natDec k ++ t "]" = nm ++ ' ' :: (t "[" ++ natDec k ++ t "]") := by simp [t]
+  unfold firstToken
+  rw [e]
+  have hs : stripL (nm ++ ' ' :: (t "[" ++ natDec k ++ t "]")) = nm ++ ' ' :: (t "[" ++ natDec k ++ t "]") := by
+    rw [hc0]; exact stripL_of_head c0 _ hsp0
+  rw [hs]
+  have hne : nm ++ ' ' :: (t "[" ++ natDec k ++ t "]") ≠ [] := by simp
+  have htw := takeWhile_append_stop (fun c => !pyIsSpace c) nm ' ' (t "[" ++ natDec k ++ t "]")
+    (by intro x hx; exact List.all_eq_true.1 hall x hx) (by decide)
+  cases hm : nm ++ ' ' :: (t "[" ++ natDec k ++ t "]") with
+  | nil => exact absurd hm hne
+  | cons x xs =>
+    rw [hm] at htw
+    show some ((x :: xs).takeWhile fun c => !pyIsSpace c) = some nm
+    rw [htw]
+
+theorem closedSel_tier (ia ib : List IT) (i : IT) (hca : i.name ∉ ia.map (·.name)) :
+    closedSel i.name (ia ++ i :: ib) (-1) = closedOf ia i := by
+  rw [closedSel_skip _ ia _ _ hca]
+  simp [closedSel, closedOf, tierStarts]
+
+theorem buildContainer_lists (its : List IT) (h : Shape2 its) (cs : List Txt) (hnd : cs.Nodup) (hcs : ∀ c ∈ cs, c ∈ canon) :
+    ∀ (sn : Option Txt) (acc : List IT), (∀ a ∈ acc, a.name ∉ cs) →
+    buildContainer (join ['\n'] (bodyLines its)) (cs.map fun c => closedSel c its (-1)) sn acc
+      = .ok (acc ++ cs.flatMap fun c => its.filter fun i => decide (i.name = c)) := by
+  induction cs with
+  | nil => intro sn acc _; simp [buildContainer]; rfl
+  | cons c cs ih =>
+    intro sn acc hacc
+    obtain ⟨hc, hnd'⟩ := List.nodup_cons.1 hnd
+    have hacc' : ∀ a ∈ acc, a.name ∉ cs := fun a ha e => hacc a ha (List.mem_cons_of_mem _ e)
+    simp only [List.map_cons, List.flatMap_cons]
+    by_cases hcn : c ∈ its.map (·.name)
+    · obtain ⟨i, hi, hic⟩ := List.mem_map.1 hcn
+      obtain ⟨ia, ib, hits⟩ := List.append_of_mem hi
+      have hndn : (its.map (·.name)).Nodup := h.names.nodup canon_nodup
+      rw [hits] at hndn
+      simp only [List.map_append, List.map_cons] at hndn
+      have hnd2 := List.nodup_append.1 hndn
+      have hca : c ∉ ia.map (·.name) := by
+        intro e; exact hnd2.2.2 c e c (by simp [hic]) rfl
+      have hcb : c ∉ ib.map (·.name) := by
+        have := (List.nodup_cons.1 hnd2.2.1).1; rwa [hic] at this
+      have hcanon := mem_canon_of_shape h.toShape i hi
+      have hps := h.subs i hi
+      have hsp := h.spans i hi
+      have hne := h.nonempty i hi
+      have hdis := h.distinct i hi
+      have hfil : its.filter (fun j => decide (j.name = c)) = [i] := by
+        rw [hits]; exact filter_name_unique ia ib i c hic hca hcb
+      rw [hfil]
+      have hcl : closedSel c its (-1) = closedOf ia i := by
+        rw [hits, ← hic]; exact closedSel_tier ia ib i (by rw [hic]; exact hca)
+      rw [hcl]
+      have hnonempty : (closedOf ia i).isEmpty = false := rfl
+      rw [buildContainer]
+      simp only [hnonempty, Bool.false_eq_true, if_false]
+      have hloop := subTierLoop_tier ia ib i hcanon hps hsp hne sn
+      rw [← hits] at hloop
+      simp only [bind, Except.bind, hloop]
+      -- the last sub tier's name gives the intermediate tier's name
+      obtain ⟨q, hq⟩ : ∃ q, i.subs.getLast? = some q := by
+        cases hs : i.subs.getLast? with
+        | none => cases hs' : i.subs with
+          | nil => exact absurd hs' hne
+          | cons a as => rw [hs'] at hs; simp at hs
+        | some q => exact ⟨q, rfl⟩
+      obtain ⟨k, hk⟩ := (hps q (List.mem_of_getLast? hq)).name
+      simp only [hq, Option.map_some, hk, pure, Except.pure]
+      rw [firstToken_subName i.name hcanon k]
+      simp only [hdis, Bool.false_eq_true, if_false]
+      have hcont : (acc.map (·.name)).contains i.name = false := by
+        cases hx : (acc.map (·.name)).contains i.name with
+        | false => rfl
+        | true =>
+          have : i.name ∈ acc.map (·.name) := by simpa using hx
+          obtain ⟨a, ha, hae⟩ := List.mem_map.1 this
+          exact absurd (by rw [hae, hic]; simp) (hacc a ha)
+      simp only [hcont, Bool.false_eq_true, if_false, pure, Except.pure]
+      have hi' : (⟨i.name, i.subs⟩ : IT) = i := rfl
+      rw [hi', ih hnd' (fun x hx => hcs x (List.mem_cons_of_mem _ hx)) _ (acc ++ [i])]
+      · simp
+      · intro a ha
+        rcases List.mem_append.1 ha with ha | ha
+        · exact hacc' a ha
+        · simp only [List.mem_singleton] at ha; subst ha; rw [hic]; exact hc
+    · have hfil : its.filter (fun j => decide (j.name = c)) = [] := by
+        apply List.filter_eq_nil_iff.2
+        intro j hj; simp only [decide_eq_true_eq]; intro e; exact hcn (List.mem_map.2 ⟨j, hj, e⟩)
+      rw [hfil, closedSel_absent c its _ hcn, buildContainer]
+      simp only [List.isEmpty_nil, if_true, List.nil_append]
+      exact ih hnd' (fun x hx => hcs x (List.mem_cons_of_mem _ hx)) sn acc hacc'
+
+theorem sel_singletons (c : Txt) (its : List IT) :
+    sel c (its.map fun i => (i.name, [i])) = its.filter fun i => decide (i.name = c) := by
+  unfold sel
+  induction its with
+  | nil => rfl
+  | cons i is ih =>
+    simp only [List.map_cons, List.flatMap_cons, List.filter_cons, ih]
+    by_cases h : i.name = c <;> simp [h]
+
+theorem flatten_singletons {α} (l : List α) : (l.map fun x => [x]).flatten = l := by
+  induction l with
+  | nil => rfl
+  | cons a as ih => simp [ih]
+
+/-- tiers standing in canonical order are recovered by collecting them name by name -/
+theorem its_group (its : List IT) (h : (its.map (·.name)).Sublist canon) :
+    (canon.flatMap fun c => its.filter fun i => decide (i.name = c)) = its := by
+  have := group_flatten canon canon_nodup (its.map fun i => (i.name, [i])) (by simpa [List.map_map, Function.comp_def] using h)
+  rw [List.flatMap_def]
+  have e : (canon.map fun c => its.filter fun i => decide (i.name = c)) = canon.map fun c => sel c (its.map fun i => (i.name, [i])) := by
+    apply List.map_congr_left; intro c _; exact (sel_singletons c its).symm
+  rw [e, this]
+  simp only [List.flatMap_def, List.map_map, Function.comp_def]
+  exact flatten_singletons its
+
+/-- a container section as `_getSectionHeader` hands it to `_proccessContainerTierInput`: three header rows
+(`name? <exists>`, `xmin = …`, `xmax = …`), then the intermediate tiers -/
+def containerSection (row1 row2 row3 : Txt) (its : List IT) : Txt :=
+  row1 ++ '\n' :: (row2 ++ '\n' :: (row3 ++ '\n' :: join ['\n'] (bodyLines its)))
+
+/-- **(e), container level** — `_proccessContainerTierInput` applied to a container section in the writer's
+layout returns exactly the intermediate tiers, their sub tiers, spans and points that were written:
+hierarchy, names, every numeral digit for digit. -/
+theorem container_roundtrip (row1 row2 row3 : Txt) (h1 : '\n' ∉ row1) (h2 : '\n' ∉ row2) (h3 : '\n' ∉ row3)
+    (its : List IT) (h : Shape2 its) :
+    processContainer (containerSection row1 row2 row3 its) = .ok its := by
+  unfold processContainer containerSection
+  rw [pySplitN_hit _ _ _ _ h1, pySplitN_hit _ _ _ _ h2, pySplitN_hit _ _ _ _ h3, pySplitN_zero]
+  simp only [List.getLast?_cons_cons, List.getLast?_singleton, Option.getD_some]
+  rw [containerIndexLists_body its h.toShape]
+  rw [buildContainer_lists its h canon canon_nodup (fun c hc => hc) none [] (by simp)]
+  simp [its_group its h.names]
+
+/-! ### non-vacuity of the container round trip -/
+
+set_option exponentiation.threshold 2000 in
+theorem exIts_shape2 : Shape2 exIts := by
+  refine ⟨exIts_shape, ?_, ?_, ?_⟩
+  · intro i hi p hp
+    simp only [exIts, List.mem_cons, List.not_mem_nil, or_false] at hi
+    rcases hi with rfl | rfl <;> simp only [List.mem_cons, List.not_mem_nil, or_false] at hp
+    · rcases hp with rfl | rfl <;> exact ⟨by decide, by decide⟩
+    · subst hp; exact ⟨by decide, by decide⟩
+  · intro i hi
+    simp only [exIts, List.mem_cons, List.not_mem_nil, or_false] at hi
+    rcases hi with rfl | rfl <;> simp
+  · intro i hi
+    simp only [exIts, List.mem_cons, List.not_mem_nil, or_false] at hi
+    rcases hi with rfl | rfl <;> decide
+
+#guard (match processContainer (containerSection (t "oral_formants? <exists>") (t "xmin = 0") (t "xmax = 1") exIts) with
+        | .ok r => decide (r = exIts) | .error _ => false)
+
+/-- the container round trip applies to the concrete example (hypotheses satisfiable) -/
+example : processContainer (containerSection (t "oral_formants? <exists>") (t "xmin = 0") (t "xmax = 1") exIts) = .ok exIts :=
+  container_roundtrip _ _ _ (by decide) (by decide) (by decide) exIts exIts_shape2
+
+/-! ## the layout of a whole written file (shared by the whole-file theorems in `Props/C19File.lean`, `Props/C19Read.lean`) -/
+
+/-- the numeral `_cleanNumericValues` leaves in a `head = tail` row: a zero-valued non-integer literal
+(`0.0`, `-0.0`, `0e0`) becomes `0`; everything else is kept -/
+def cz (n : Txt) : Txt := if isIntLit n = true then n else if fclass n = some FClass.zero then t "0" else n
+
+def cleanPT (p : PT) : PT := { p with pts := p.pts.map fun q => (cz q.1, cz q.2) }
+def cleanIT (i : IT) : IT := { i with subs := i.subs.map cleanPT }
+def cleanSec : Sec → Sec
+  | .tier p => .tier (cleanPT p)
+  | .cont n its => .cont n (its.map cleanIT)
+def cleanWSec (w : WSec) : WSec := { w with sec := cleanSec w.sec }
+
+/-- rows of a top-level tier section as they stand in the file -/
+def tierLines (p : PT) : List Txt :=
+  [p.name ++ t "? <exists>", t "xmin = " ++ p.xmin, t "xmax = " ++ p.xmax] ++
+    (if noPointsHeader.contains p.name then [] else [t "points: size = " ++ natDec p.pts.length]) ++
+    pointRows [] 0 p.pts
+
+/-- rows of a section (tier or container) as they stand in the file -/
+def wsecLines (w : WSec) : List Txt :=
+  match w.sec with
+  | .tier p => tierLines p
+  | .cont name its =>
+    [name ++ t "? <exists>"] ++
+      (match w.span with | some (a, b) => [t "xmin = " ++ a, t "xmax = " ++ b] | none => []) ++ bodyLines its
+
+/-- all rows of the file `Klattgrid.save` writes; the file is these rows, each followed by a newline -/
+def fileLines (xmin xmax : Txt) (secs : List WSec) : List Txt :=
+  [t "File type = \"ooTextFile\"", t "Object class = \"KlattGrid\"", [], t "xmin = " ++ xmin, t "xmax = " ++ xmax] ++
+    (secs.map wsecLines).flatten
+
+/-! ## (d) point objects: the two layouts, together -/
+
+/-- **(d)** `read (write po) = po` at the numeral level, for every number of points: PointProcess through
+`open1DPointObject`, PitchTier / DurationTier through `open2DPointObject` (the proofs are in
+`Props/C19PointShort.lean`) -/
+theorem pointobj_roundtrip (p : PO) :
+    (PO.Ok1 p → open1D p.text = .ok p) ∧ (PO.Ok2 p → open2D p.text = .ok p) :=
+  ⟨pointobj_roundtrip_1d p, pointobj_roundtrip_2d p⟩
+
+/-- the long (Praat) and the short (praatio) text layout of the same data open to the same object — for 2-D
+objects only when there is at least one point: on an empty PitchTier / DurationTier in the long layout the
+reader raises ValueError (`pointobj_long_2d_empty_fails_all`), which is a defect of the code, kept as a
+known finding -/
+theorem pointobj_long_short_agree (p : PO) :
+    (PO.Ok1 p → Long.Ok1 p → open1D (p.longText false) = open1D p.text) ∧
+    (PO.Ok2 p → Long.Ok2 p → p.rows ≠ [] → open2D (p.longText true) = open2D p.text) := by
+  constructor
+  · intro h1 h2; rw [pointobj_long_1d p h2, pointobj_roundtrip_1d p h1]
+  · intro h1 h2 hne; rw [pointobj_long_2d p h2 hne, pointobj_roundtrip_2d p h1]
+
+end C19
